@@ -2,38 +2,48 @@ package rules
 
 // C11 — "Annotation reconstructs, for any time, the child versions that were current".
 //
-// The core of C11 (WHICH child version is current at WHICH time, for every
-// history, threshold and query time) depends on timestamps and is NOT decided
-// here. This file decides structural necessary conditions only (DESIGN.md §5
-// C11, rules A1..A4, plus A5 for the update window / per-parent grouping).
+// The core of C11 (WHICH child version is current at WHICH time, for every history, threshold and query
+// time) depends on timestamps and is NOT decided here. This property decides structural necessary
+// conditions only (DESIGN.md §5 C11, rules A1..A5).
+//
+// Technique. Every rule is stated on the PATHS of the functions involved, produced by a small symbolic path
+// interpreter (c11_sym.go values, c11_state.go path state, c11_interp.go expressions, c11_exec.go
+// statements): a function is executed on symbolic inputs, unexported helpers of its package are inlined,
+// local closures are executed in place, every other call is an opaque pure term and is recorded as an event,
+// stores to memory are recorded as events, branch decisions are recorded as assumptions, loops are executed
+// for one arbitrary iteration (variables assigned in the loop are fresh symbols at its head). The rules then
+// ask WHAT happens (which call / store / return value, on which terms) under WHICH decisions. They never
+// look at statement shapes, so the following rewrites do not change a verdict (ROBUSTNESS.md classes 1-5):
+// extract / inline of helpers and closures, goroutine-free moves between files, if <-> switch <-> tagless
+// switch, inverted branches, early return <-> nesting, merged / split guards, if-init forms, captured
+// booleans, renamed locals and parameters, pointer and value aliases of places, named constants,
+// construct-then-patch <-> single literal, reordered independent statements.
 //
 // Anchors, in order of preference:
-//   exported API      annotate.Ways, annotate.Relations, annotate.Option and the option
-//                     constructors, annotate.IsReverse, annotate.NoHistoryError,
-//                     annotate.NoVisibleChildError, shared.Child (+ Update, FromNode, FromWay,
-//                     FromRelation), osm.Update, osm.WayNode, osm.Member, osm.CommitInfoStart,
-//                     osm.{Nodes,Ways,Relations}.SortByIDVersion, core.Compute, core.Parent,
-//                     core.Datasourcer, core.ChildList (+ FindVisible, VersionBefore),
-//                     core.Options, core.NoHistoryError, core.NoVisibleChildError
-//   role / dataflow   "the function Ways/Relations hand Compute's error to" (mapErrors),
-//                     "the types of package annotate implementing core.Parent" (parentWay,
-//                     parentRelation), "functions osm.Xs -> core.ChildList" (nodesToChildList,
-//                     waysToChildList, relationsToChildList), "the function computing
-//                     Update.Timestamp in Child.Update" (updateTimestamp), "the callee of the
-//                     range expressions of Compute" (mapChildLocs, childLocs.GroupByParent),
-//                     "the comparator handed to sort.Sort by SortByIDVersion"
-//   unexported names  none: the two fields of the location struct (core.childLoc) are identified by
-//                     role (which one receives the parents-range key / the refs-range key).
+//   exported API      annotate.Ways, annotate.Relations, annotate.Option and the exported option constructors,
+//                     annotate.IsReverse, shared.Child (+ Update, FromNode, FromWay, FromRelation), osm.Update,
+//                     osm.WayNode, osm.Member, osm.CommitInfoStart, osm.{Nodes,Ways,Relations}.SortByIDVersion,
+//                     core.Compute, core.Parent (Visible, SetChild, Refs, ChangesetID), core.Datasourcer (Get,
+//                     NotFound), core.ChildList (FindVisible, VersionBefore), core.Options and its fields,
+//                     the exported error types of package core
+//   role / dataflow   everything else: "the parent of the group" is the X of the parents[X].Visible() decision,
+//                     "the current child" is child.FindVisible(parents[X].ChangesetID(), ...), "the window
+//                     loop" is the loop whose variable indexes child in child[k].Update(), "the location map"
+//                     is the map that receives append(m[refs[j]], loc{i, j}), the two fields of the location
+//                     struct are identified by which one receives i / j, "the grouping method" is the callee
+//                     producing the groups Compute ranges over, "list builders" are the functions of package
+//                     annotate that make(core.ChildList, len(X)), "Parent implementations" are the types of
+//                     package annotate implementing core.Parent, the comparator is the Less method of the type
+//                     handed to sort.Sort by SortByIDVersion
+//   unexported names  none
+//
+// Files: c11.go (registration, mutants), c11_benign.go (behaviour-preserving variants), c11_compute.go (path
+// model of Compute, A1, A2 error returns), c11_a2.go (Ways/Relations/options), c11_a3.go, c11_a4.go (A4 and
+// A5 refs@), c11_a5.go, c11_debug.go (C11_DUMP=<function> prints the paths).
 
 import (
 	"go/ast"
-	"go/token"
 	"go/types"
-	"sort"
-	"strings"
-
-	"golang.org/x/tools/go/cfg"
-	"golang.org/x/tools/go/packages"
 
 	"osmcheck/core"
 )
@@ -50,30 +60,34 @@ func init() {
 		ID:    "C11",
 		Title: "Annotation reconstructs, for any time, the child versions that were current",
 		Explanation: "The core of C11 — which child version is current at which time, for every history, threshold and query time t — depends on timestamp values and is NOT decidable by static analysis; it is NOT decided here. " +
-			"A PASS means the following structural necessary conditions hold on every path / at every site: " +
-			"(A1) in core.Compute every Parent.SetChild call and every append to a parent's update list is reachable only on the visible edge of that parent's Visible() test (deleted parent versions get no annotations); " +
-			"(A2) every error return of Compute is one of the documented kinds and is control-dependent on its option: datasource errors that are not NotFound propagate unchanged, *NoHistoryError needs NotFound(err) && !IgnoreMissingChildren, *NoVisibleChildError needs c == nil && !IgnoreInconsistency, the untyped \"child deleted between parent versions\" error needs a non-visible child version && !IgnoreInconsistency; Ways and Relations apply every option to the Options value they pass to Compute and route Compute's error through one mapping function that has a case for every exported error type of core, builds the same-named public type from the corresponding fields and passes other errors through; each public option sets the same-named core.Options field from its argument; " +
-			"(A3) parentWay/parentRelation.SetChild write exactly {Version, ChangesetID, Lat, Lon} of the child at the given index, each from the same-named shared.Child field, and touch the child only when it is non-nil; Child.Update() fills Version, ChangesetID, Lat, Lon from same-named fields, Reverse from ReverseOfPrevious, leaves Index to Compute, and stamps Timestamp through a function that returns the commit time only when the timestamp is not before osm.CommitInfoStart and the commit time is set, called with (Timestamp, Committed) in the right roles; FromNode/FromWay/FromRelation copy ID (FeatureID()), Version, ChangesetID, Visible, Timestamp (Lat/Lon, Way) from same-named fields and Committed only under its nil test; " +
-			"(A4) every history->ChildList conversion sorts its input with SortByIDVersion (whose comparator orders equal ids by ascending Version) before the single loop that sets VersionIndex = i and list[i] = that child, without skipping elements, so ChildList index == VersionIndex; ReverseOfPrevious is computed against ways[i-1] only for i != 0; " +
-			"(A5) Compute's update window is `for k := start; k < nextVersion; k++` over the fetched child list with start in {0, c.VersionIndex+1 (c non-nil), VersionBefore(..).VersionIndex+1 (c nil)}, emits updates only for Visible child versions, annotates the child found by FindVisible for this parent's changeset/time/threshold at the location's index, collects updates in a per-parent list appended to results[locs[0].Parent]; GroupByParent yields runs of equal Parent; mapChildLocs records (parent index, ref index) and skips a child only when it is already annotated and the filter rejects it; Refs() and SetChild index the same member list. " +
-			"NOT decided: FindVisible / nextVersionIndex / VersionBefore threshold arithmetic, the time-travel consequence (ApplyUpdatesUpTo(t) reproduces the state at t), correctness of user-supplied AsChildren datasources (their VersionIndex is trusted), Way/Relation.applyUpdate (C15.U4) and ordering of updates (C12).",
+			"A PASS means the following structural necessary conditions hold on EVERY PATH of the functions involved (symbolic path interpreter: unexported helpers and local closures inlined, calls pure, one arbitrary iteration per loop), whatever the statement shapes: " +
+			"(A1) in core.Compute (with its helpers) every Parent.SetChild call is on parents[X] after the decision parents[X].Visible() == true, and every append to an osm.Updates list follows that decision for exactly one X (a list indexed per parent is indexed by that X): deleted parent versions get no annotations; " +
+			"(A2) every path of Compute that returns an error returns one of the documented kinds after the required decisions: the datasource's error unchanged needs err != nil && !NotFound(err); *NoHistoryError (ChildID = the requested id) needs NotFound(err) && !IgnoreMissingChildren; *NoVisibleChildError needs FindVisible(<this parent>) == nil && !IgnoreInconsistency; any other error needs a child version decided not visible && !IgnoreInconsistency; on every path of annotate.Ways / annotate.Relations that reaches core.Compute a loop over the variadic options has called each option with the very *core.Options value handed to Compute; where Compute's error may be non-nil it is classified against every exported core error type, a recognised *core.T is returned as &annotate.T with the corresponding fields carried over, every other error is returned unchanged, and nil is never returned instead; each exported option constructor returns a function that sets exactly the same-named core.Options field from the constructor's argument and returns nil; " +
+			"(A3) SetChild of every Parent implementation stores, on every path with a non-nil child, exactly {Version, ChangesetID, Lat, Lon} of <member list>[idx], each from the same-named shared.Child field, stores none of them for a nil child and never uses child.<field> before deciding child != nil; Child.Update() returns Version, ChangesetID, Lat, Lon from the same-named fields and Reverse from ReverseOfPrevious on every path, and its Timestamp obeys the truth table over (Timestamp.Before(osm.CommitInfoStart), Committed.IsZero()): Committed exactly when both are false, Timestamp otherwise, with the tests made on the right fields; FromNode/FromWay/FromRelation return a Child whose ID is FeatureID(), whose Version, ChangesetID, Visible, Timestamp (Lat/Lon, Way) are the same-named fields and whose Committed is *Committed on the paths where that pointer was decided non-nil and the zero time on the others; " +
+			"(A4) every function of package annotate that builds a core.ChildList (make(core.ChildList, len(X))) calls X.SortByIDVersion() before the fill loop on every path, every iteration i of that loop stores c = shared.From…(X[i]) with c.VersionIndex = i at list[i] (no iteration without the store, no break), the filled list is what is returned, ReverseOfPrevious is IsReverse(X[i], X[i-1]) only after deciding i != 0; every Datasourcer.Get of package annotate returns nil, the result of such a builder or the user's AsChildren result; the comparator behind each SortByIDVersion, evaluated on all 9 relations of (ID_i vs ID_j, Version_i vs Version_j), is ID_i < ID_j || (ID_i == ID_j && Version_i < Version_j); " +
+			"(A5) locations are recorded as loc{i, j} under refs[j] of parents[i].Refs() and a ref is skipped only after deciding annotated[j] and !opts.ChildFilter(refs[j]); the parent processed is parents[G[0].<parent field>] for a group G produced by the grouping method from the locations of the fetched child, and that method yields maximal runs of one parent index; SetChild stores FindVisible(parent.ChangesetID(), <time of parent>, opts.Threshold) at cl.<index field> for the locations cl of the group; updates are child[k].Update() for the variable k of one loop with the strict condition k < end and k advanced by one, k starts at cur.VersionIndex+1 (cur != nil), VersionBefore(<time of parent>).VersionIndex+1 (cur == nil, non-nil) or 0, within a group only parents[I] and — after deciding I < len(parents)-1 — parents[I+1] are consulted and the bound depends on parents[I+1] when it exists, Update() is called only after deciding child[k].Visible, every iteration over the locations builds exactly one update with Index = cl.<index field> and appends it, the list accumulated by the window loop is empty at loop entry and is appended to results[I], results = make(…, len(parents)) is what the success path returns; Refs() and SetChild of every Parent implementation address the same member list at the same positions (ids[i] = L[i].FeatureID(), annotated[i] = L[i].Version != 0); " +
+			"(A6) every success path of Compute runs a loop whose every iteration calls SortByIndex on the result list at its position, and the comparator behind osm.Updates.SortByIndex, evaluated on all 27 relations of (Index, Timestamp, Version) of two updates, is the strict lexicographic order: updates of one child location are applied oldest version last-wins even when timestamps are equal (sort.Sort is not stable). " +
+			"NOT decided: FindVisible / nextVersionIndex / VersionBefore threshold arithmetic (e.g. whether a boundary comparison is < or <=), the time-travel consequence (ApplyUpdatesUpTo(t) reproduces the state at t), correctness of user-supplied AsChildren datasources (their VersionIndex is trusted), Way/Relation.applyUpdate (C15.U4), that ApplyUpdatesUpTo applies the updates in slice order (C15) and the other comparators of package osm (C12). A code shape the interpreter cannot follow (goto, fallthrough, defer/go/select, address of a non-struct local, more than 20000 paths) makes the affected obligations Unknown (fails), never silently OK.",
 		Assumptions: []string{
-			"go/types, go/cfg (x/tools v0.29.0)",
-			"condition calls (Parent.Visible, Datasourcer.NotFound, time.Time.Before/IsZero) are pure: a test result still holds at a dominated site when no local variable of the test is reassigned in between",
+			"go/types (x/tools v0.29.0 go/packages loader)",
+			"calls that are not inlined are pure functions of their receiver and arguments (Parent.Visible, ChangesetID, Timestamp, Committed, Refs, Datasourcer.Get/NotFound, ChildList.FindVisible/VersionBefore, time.Time.Before/IsZero, FeatureID, IsReverse, Polygon): the same term denotes the same value along a path; decisions about a memory place are dropped when that place is stored to",
+			"loops: properties are established for one arbitrary iteration (variables assigned in the loop are unconstrained at its head) and for the code after the loop with those variables unconstrained",
 			"sort.Sort sorts according to Less",
 			"user datasources implementing the *AsChildren interfaces return version-sorted children with VersionIndex == position",
 		},
-		LevelText: "Structural necessary conditions only. Which child version is current at which time (FindVisible / nextVersionIndex arithmetic, thresholds, and the consequence that ApplyUpdatesUpTo(t) reproduces the state at t) is value/time dependent and is NOT decided. Decided on every path/site: deleted parents receive no annotation (dominance by the Visible edge), every error return of Compute is control-dependent on its documented option and is mapped to the public typed error, options set the same-named field, field-copy agreement of SetChild / Child.Update / FromNode,FromWay,FromRelation, child lists are version-sorted before VersionIndex is assigned and ChildList index == VersionIndex, shape of the update window (start after the current version, visible versions only, appended to the parent the locations belong to).",
-		LevelNote: "Trusts the Go type checker and go/cfg; purity of the tested predicates; sort.Sort; user-provided AsChildren datasources. Covers annotate, annotate/internal/core, annotate/shared and the SortByIDVersion comparators of package osm.",
-		Technique: "per-function CFG edge facts (go/cfg dominators + edge reachability, conditions decomposed over !, &&, ||, with reassignment checks) + type-resolved field-copy tables and role-resolved helper functions",
+		LevelText: "Structural necessary conditions only. Which child version is current at which time (FindVisible / nextVersionIndex arithmetic, thresholds, and the consequence that ApplyUpdatesUpTo(t) reproduces the state at t) is value/time dependent and is NOT decided. Decided on every path (helpers inlined): deleted parents receive no annotation, every error return of Compute follows the decisions documented for its kind and is mapped to the public typed error, options set the same-named field and are applied to the value handed to Compute, field-copy agreement of SetChild / Child.Update / FromNode,FromWay,FromRelation, child lists are version-sorted before VersionIndex is assigned and ChildList index == VersionIndex, shape of the update window (start after the current version, strict end that depends on the next parent version, visible versions only, one update per location with its index, appended to the parent the locations belong to).",
+		LevelNote: "Trusts the Go type checker; purity of the calls that are not inlined; sort.Sort; user-provided AsChildren datasources. Covers annotate, annotate/internal/core, annotate/shared and the SortByIDVersion comparators of package osm. Robustness: the behaviour-preserving variants (Benign) and the refactoring corpus stay silent; every mutant is reported.",
+		Technique: "symbolic path interpretation (finite-domain evaluation): per function, all paths over its statement structure with symbolic values (terms over parameters, globals, iteration symbols), assumptions for branch decisions, events for calls/stores, inlining of unexported helpers and local closures, one arbitrary iteration per loop, an oracle for the 3x3 comparator table; rules are predicates over paths (event X only after decision Y, returned value Z under decisions W)",
 		DesignRef: "DESIGN.md §5 C11",
 		Rules: []*core.Rule{
-			{ID: "A1", Floor: 3, Doc: "deleted parents get no annotations: SetChild and update appends only on the visible edge", Run: c11A1},
-			{ID: "A2", Floor: 15, Doc: "option-gated typed errors, error mapping, options set same-named fields", Run: c11A2},
-			{ID: "A3", Floor: 32, Doc: "copy agreement of SetChild, Child.Update, FromNode/FromWay/FromRelation", Run: c11A3},
-			{ID: "A4", Floor: 14, Doc: "child lists are version-sorted before VersionIndex is assigned; list index == VersionIndex", Run: c11A4},
-			{ID: "A5", Floor: 16, Doc: "shape of the update window and per-parent grouping in Compute", Run: c11A5},
+			{ID: "A1", Floor: 2, Doc: "deleted parents get no annotations: on every path SetChild and update appends follow the decision parents[X].Visible() (floor: setchild@Compute, append@Compute)", Run: c11A1},
+			{ID: "A2", Floor: 18, Doc: "option-gated typed errors, error mapping, options set same-named fields (floor: 4 error kinds of Compute, 4 exported options, {route, options, passthrough, maperr x 2 core error types} x {Ways, Relations})", Run: c11A2},
+			{ID: "A3", Floor: 32, Doc: "copy agreement of SetChild, Child.Update, FromNode/FromWay/FromRelation (floor: {copy, nilchild} x 2 Parent implementations, 6 Update fields + stamp, 8+7+6 Child fields with a counterpart)", Run: c11A3},
+			{ID: "A4", Floor: 14, Doc: "child lists are version-sorted before VersionIndex is assigned; list index == VersionIndex (floor: {sorted, index} x 3 osm source types + reverse@Ways, 4 Get methods, 3 comparators)", Run: c11A4},
+			{ID: "A5", Floor: 13, Doc: "shape of the update window and per-parent grouping in Compute (floor: refs@ x 2 Parent implementations, loc, filter, group parent-index, grouping method, current, window loop/start/end/visible-only/update-index, results)", Run: c11A5},
+			{ID: "A6", Floor: 2, Doc: "application order of a parent's updates: Compute sorts every result list with SortByIndex; its comparator is the strict lexicographic order over (Index, Timestamp, Version) (floor: sort@Compute, order@Updates.SortByIndex)", Run: c11A6},
 		},
+		Benign: c11Benign,
 		Mutants: []core.Mutant{
 			// A1
 			{Name: "visible-test-dropped", File: cmp, Find: "\t\t\tif !parent.Visible() {\n\t\t\t\tcontinue\n\t\t\t}\n", Replace: "", ExpectRule: "A1", ExpectConstruct: "setchild@Compute"},
@@ -88,8 +102,8 @@ func init() {
 			{Name: "missing-children-gate-inverted", File: cmp, Find: "if opts.IgnoreMissingChildren {", Replace: "if !opts.IgnoreMissingChildren {", ExpectRule: "A2", ExpectConstruct: "return@Compute NoHistoryError"},
 			{Name: "deleted-between-wrong-option", File: cmp, Find: "\t\t\t\t\tif !opts.IgnoreInconsistency {", Replace: "\t\t\t\t\tif !opts.IgnoreMissingChildren {", ExpectRule: "A2", ExpectConstruct: "return@Compute inconsistency"},
 			{Name: "notfound-inverted", File: cmp, Find: "if !histories.NotFound(err) {", Replace: "if histories.NotFound(err) {", ExpectRule: "A2", ExpectConstruct: "return@Compute"},
-			{Name: "maperrors-no-novisible-case", File: "annotate/errors.go", Find: "\tcase *core.NoVisibleChildError:\n\t\treturn &NoVisibleChildError{\n\t\t\tID:        t.ChildID,\n\t\t\tTimestamp: t.Timestamp,\n\t\t}\n", Replace: "", ExpectRule: "A2", ExpectConstruct: "maperr@mapErrors NoVisibleChildError"},
-			{Name: "maperrors-drops-timestamp", File: "annotate/errors.go", Find: "\t\t\tTimestamp: t.Timestamp,\n", Replace: "", ExpectRule: "A2", ExpectConstruct: "maperr@mapErrors NoVisibleChildError"},
+			{Name: "maperrors-no-novisible-case", File: "annotate/errors.go", Find: "\tcase *core.NoVisibleChildError:\n\t\treturn &NoVisibleChildError{\n\t\t\tID:        t.ChildID,\n\t\t\tTimestamp: t.Timestamp,\n\t\t}\n", Replace: "", ExpectRule: "A2", ExpectConstruct: "maperr@Ways NoVisibleChildError"},
+			{Name: "maperrors-drops-timestamp", File: "annotate/errors.go", Find: "\t\t\tTimestamp: t.Timestamp,\n", Replace: "", ExpectRule: "A2", ExpectConstruct: "maperr@Ways NoVisibleChildError"},
 			{Name: "relations-unmapped-error", File: "annotate/relation.go", Find: "return mapErrors(err)", Replace: "return err", ExpectRule: "A2", ExpectConstruct: "route@Relations"},
 			{Name: "option-wrong-field", File: "annotate/options.go", Find: "o.IgnoreMissingChildren = yes", Replace: "o.IgnoreInconsistency = yes", ExpectRule: "A2", ExpectConstruct: "option@IgnoreMissingChildren"},
 			{Name: "ways-options-not-applied", File: "annotate/way.go", Find: "core.Compute(ctx, parents, wds, computeOpts)", Replace: "core.Compute(ctx, parents, wds, &core.Options{Threshold: defaultThreshold})", ExpectRule: "A2", ExpectConstruct: "options@Ways"},
@@ -103,10 +117,10 @@ func init() {
 			{Name: "fromnode-lon-from-lat", File: "annotate/shared/child.go", Find: "Lon: n.Lon,", Replace: "Lon: n.Lat,", ExpectRule: "A3", ExpectConstruct: "from@FromNode Lon"},
 			{Name: "fromway-drops-visible", File: "annotate/shared/child.go", Find: "\t\tVisible:     w.Visible,\n", Replace: "", ExpectRule: "A3", ExpectConstruct: "from@FromWay Visible"},
 			// A4
-			{Name: "ways-childlist-unsorted", File: "annotate/datasource.go", Find: "\tways.SortByIDVersion()\n", Replace: "", ExpectRule: "A4", ExpectConstruct: "sorted@waysToChildList"},
-			{Name: "nodes-sorted-after-loop", File: "annotate/datasource.go", Find: "\tnodes.SortByIDVersion()\n\tfor i, n := range nodes {\n\t\tc := shared.FromNode(n)\n\t\tc.VersionIndex = i\n\t\tlist[i] = c\n\t}\n", Replace: "\tfor i, n := range nodes {\n\t\tc := shared.FromNode(n)\n\t\tc.VersionIndex = i\n\t\tlist[i] = c\n\t}\n\tnodes.SortByIDVersion()\n", ExpectRule: "A4", ExpectConstruct: "sorted@nodesToChildList"},
-			{Name: "versionindex-off-by-one", File: "annotate/datasource.go", Find: "c.VersionIndex = i\n\t\tlist[i] = c\n\t}\n\n\treturn list\n}\n\nfunc waysToChildList", Replace: "c.VersionIndex = i + 1\n\t\tlist[i] = c\n\t}\n\n\treturn list\n}\n\nfunc waysToChildList", ExpectRule: "A4", ExpectConstruct: "index@nodesToChildList"},
-			{Name: "reverse-against-self", File: "annotate/datasource.go", Find: "IsReverse(w, ways[i-1])", Replace: "IsReverse(w, ways[i])", ExpectRule: "A4", ExpectConstruct: "reverse@waysToChildList"},
+			{Name: "ways-childlist-unsorted", File: "annotate/datasource.go", Find: "\tways.SortByIDVersion()\n", Replace: "", ExpectRule: "A4", ExpectConstruct: "sorted@Ways"},
+			{Name: "nodes-sorted-after-loop", File: "annotate/datasource.go", Find: "\tnodes.SortByIDVersion()\n\tfor i, n := range nodes {\n\t\tc := shared.FromNode(n)\n\t\tc.VersionIndex = i\n\t\tlist[i] = c\n\t}\n", Replace: "\tfor i, n := range nodes {\n\t\tc := shared.FromNode(n)\n\t\tc.VersionIndex = i\n\t\tlist[i] = c\n\t}\n\tnodes.SortByIDVersion()\n", ExpectRule: "A4", ExpectConstruct: "sorted@Nodes"},
+			{Name: "versionindex-off-by-one", File: "annotate/datasource.go", Find: "c.VersionIndex = i\n\t\tlist[i] = c\n\t}\n\n\treturn list\n}\n\nfunc waysToChildList", Replace: "c.VersionIndex = i + 1\n\t\tlist[i] = c\n\t}\n\n\treturn list\n}\n\nfunc waysToChildList", ExpectRule: "A4", ExpectConstruct: "index@Nodes"},
+			{Name: "reverse-against-self", File: "annotate/datasource.go", Find: "IsReverse(w, ways[i-1])", Replace: "IsReverse(w, ways[i])", ExpectRule: "A4", ExpectConstruct: "reverse@Ways"},
 			{Name: "sort-version-descending", File: "relation.go", Find: "return rs[i].Version < rs[j].Version", Replace: "return rs[i].Version > rs[j].Version", ExpectRule: "A4", ExpectConstruct: "order@Relations.SortByIDVersion"},
 			// A5
 			{Name: "window-starts-at-current", File: cmp, Find: "start = c.VersionIndex + 1", Replace: "start = c.VersionIndex", ExpectRule: "A5", ExpectConstruct: "window@Compute start"},
@@ -114,384 +128,49 @@ func init() {
 			{Name: "results-indexed-by-location", File: cmp, Find: "parentIndex := locs[0].Parent", Replace: "parentIndex := locs[0].Index", ExpectRule: "A5", ExpectConstruct: "group@Compute parent-index"},
 			{Name: "next-parent-is-self", File: cmp, Find: "nextParent = parents[parentIndex+1]", Replace: "nextParent = parents[parentIndex]", ExpectRule: "A5", ExpectConstruct: "window@Compute end"},
 			{Name: "childloc-cross-wired", File: cmp, Find: "childLoc{Parent: i, Index: j}", Replace: "childLoc{Parent: j, Index: i}", ExpectRule: "A5", ExpectConstruct: "parent-index"},
-			{Name: "filter-skips-unannotated", File: cmp, Find: "if annotated[j] && filter != nil && !filter(fid) {", Replace: "if !annotated[j] && filter != nil && !filter(fid) {", ExpectRule: "A5", ExpectConstruct: "filter@mapChildLocs"},
+			{Name: "filter-skips-unannotated", File: cmp, Find: "if annotated[j] && filter != nil && !filter(fid) {", Replace: "if !annotated[j] && filter != nil && !filter(fid) {", ExpectRule: "A5", ExpectConstruct: "filter@Compute"},
 			{Name: "group-run-test-weakened", File: cmp, Find: "for end < len(locs) && locs[end].Parent == p {", Replace: "for end < len(locs) && locs[end].Parent >= p {", ExpectRule: "A5", ExpectConstruct: "group@"},
 			{Name: "setchild-wrong-threshold", File: cmp, Find: "\t\t\t\ttimeThresholdParent(parent, 0),\n\t\t\t\topts.Threshold,\n\t\t\t)\n\t\t\tif c == nil", Replace: "\t\t\t\ttimeThresholdParent(parent, 0),\n\t\t\t\t0,\n\t\t\t)\n\t\t\tif c == nil", ExpectRule: "A5", ExpectConstruct: "current@Compute"},
+			// ---- round 2: defects placed inside helper / closure / respelled forms (detected through the same path rules)
+			{Name: "start-helper-off-by-one", File: cmp,
+				Find:       "\t\t\tstart := 0\n\t\t\tif c != nil {\n\t\t\t\tstart = c.VersionIndex + 1\n\t\t\t} else {",
+				Replace:    "\t\t\tafter := func(v *shared.Child) int { return v.VersionIndex }\n\t\t\tstart := 0\n\t\t\tif c != nil {\n\t\t\t\tstart = after(c)\n\t\t\t} else {",
+				ExpectRule: "A5", ExpectConstruct: "window@Compute start"},
+			{Name: "start-before-version-not-skipped", File: cmp, Find: "start = next.VersionIndex + 1", Replace: "start = next.VersionIndex", ExpectRule: "A5", ExpectConstruct: "window@Compute start"},
+			{Name: "next-parent-unguarded", File: cmp, Find: "\t\t\tif parentIndex < len(parents)-1 {\n\t\t\t\tnextParent = parents[parentIndex+1]\n\t\t\t}\n", Replace: "\t\t\tif parentIndex < len(parents) {\n\t\t\t\tnextParent = parents[parentIndex+1]\n\t\t\t}\n", ExpectRule: "A5", ExpectConstruct: "window@Compute end"},
+			{Name: "next-parent-skips-one", File: cmp, Find: "\t\t\tif parentIndex < len(parents)-1 {\n\t\t\t\tnextParent = parents[parentIndex+1]\n", Replace: "\t\t\tif parentIndex < len(parents)-2 {\n\t\t\t\tnextParent = parents[parentIndex+2]\n", ExpectRule: "A5", ExpectConstruct: "window@Compute end"},
+			{Name: "update-index-not-set", File: cmp, Find: "\t\t\t\t\t\tu.Index = cl.Index\n", Replace: "\t\t\t\t\t\t_ = cl\n", ExpectRule: "A5", ExpectConstruct: "window@Compute update-index"},
+			{Name: "update-index-from-parent-field", File: cmp, Find: "u.Index = cl.Index", Replace: "u.Index = cl.Parent", ExpectRule: "A5", ExpectConstruct: "window@Compute update-index"},
+			{Name: "updates-list-not-fresh", File: cmp, Find: "\t\t\tvar updates osm.Updates\n", Replace: "\t\t\tupdates := results[parentIndex]\n", ExpectRule: "A5", ExpectConstruct: "group@Compute results"},
+			{Name: "setchild-stale-child-of-next-parent", File: cmp, Find: "parent.SetChild(cl.Index, c)", Replace: "parent.SetChild(cl.Index, child[0])", ExpectRule: "A5", ExpectConstruct: "current@Compute"},
+			{Name: "visible-tested-on-next-parent", File: cmp,
+				Find:       "\t\t\tif !parent.Visible() {\n\t\t\t\tcontinue\n\t\t\t}\n\n\t\t\tvar nextParent Parent\n\t\t\tif parentIndex < len(parents)-1 {\n\t\t\t\tnextParent = parents[parentIndex+1]\n\t\t\t}\n",
+				Replace:    "\t\t\tvar nextParent Parent\n\t\t\tif parentIndex < len(parents)-1 {\n\t\t\t\tnextParent = parents[parentIndex+1]\n\t\t\t}\n\t\t\tif nextParent != nil && !nextParent.Visible() {\n\t\t\t\tcontinue\n\t\t\t}\n",
+				ExpectRule: "A1", ExpectConstruct: "setchild@Compute"},
+			{Name: "group-extends-without-bound-test", File: cmp, Find: "for end < len(locs) && locs[end].Parent == p {", Replace: "for end < len(locs) && (locs[end].Parent == p || end == 0) {", ExpectRule: "A5", ExpectConstruct: "group@"},
+			{Name: "inconsistency-error-for-visible-version", File: cmp,
+				Find:       "\t\t\t\t\tif !opts.IgnoreInconsistency {\n\t\t\t\t\t\treturn nil, fmt.Errorf(",
+				Replace:    "\t\t\t\t\tif !opts.IgnoreInconsistency || child[k].Version == 0 {\n\t\t\t\t\t\treturn nil, fmt.Errorf(",
+				ExpectRule: "A2", ExpectConstruct: "return@Compute inconsistency"},
+			{Name: "maperrors-swallows-other-errors", File: "annotate/errors.go", Find: "\t}\n\n\treturn err\n}", Replace: "\t}\n\n\treturn nil\n}", ExpectRule: "A2", ExpectConstruct: "route@Ways"},
+			{Name: "ways-error-dropped", File: "annotate/way.go", Find: "\tif err != nil {\n\t\treturn mapErrors(err)\n\t}\n", Replace: "\tif err != nil && len(updatesForParents) == 0 {\n\t\treturn mapErrors(err)\n\t}\n", ExpectRule: "A2", ExpectConstruct: "route@Ways"},
+			{Name: "options-applied-to-copy", File: "annotate/relation.go", Find: "\t\terr := o(computeOpts)\n", Replace: "\t\tscratch := *computeOpts\n\t\terr := o(&scratch)\n", ExpectRule: "A2", ExpectConstruct: "options@Relations"},
+			{Name: "option-skipped-in-loop", File: "annotate/way.go", Find: "\tfor _, o := range opts {\n\t\terr := o(computeOpts)\n", Replace: "\tfor i, o := range opts {\n\t\tif i > 2 {\n\t\t\tcontinue\n\t\t}\n\t\terr := o(computeOpts)\n", ExpectRule: "A2", ExpectConstruct: "options@Ways"},
+			{Name: "fromnode-committed-unguarded", File: "annotate/shared/child.go", Find: "\tif n.Committed != nil {\n\t\tc.Committed = *n.Committed\n\t}\n", Replace: "\tc.Committed = *n.Committed\n", ExpectRule: "A3", ExpectConstruct: "from@FromNode Committed"},
+			{Name: "fromway-committed-dropped-in-helper", File: "annotate/shared/child.go", Find: "\tif w.Committed != nil {\n\t\tc.Committed = *w.Committed\n\t}\n", Replace: "\tc.Committed = func(t *time.Time) time.Time { return time.Time{} }(w.Committed)\n", ExpectRule: "A3", ExpectConstruct: "from@FromWay Committed"},
+			{Name: "setchild-alias-wrong-index", File: "annotate/way.go", Find: "\tw.Way.Nodes[idx].Version = child.Version\n", Replace: "\tfirst := &w.Way.Nodes[0]\n\tfirst.Version = child.Version\n", ExpectRule: "A3", ExpectConstruct: "copy@(*parentWay).SetChild"},
+			{Name: "conversion-skips-invisible", File: "annotate/datasource.go", Find: "\tfor i, r := range relations {\n\t\tc := shared.FromRelation(r)\n", Replace: "\tfor i, r := range relations {\n\t\tif !r.Visible && i > 0 {\n\t\t\tcontinue\n\t\t}\n\t\tc := shared.FromRelation(r)\n", ExpectRule: "A4", ExpectConstruct: "index@Relations"},
+			{Name: "conversion-sorts-a-copy", File: "annotate/datasource.go", Find: "\tways.SortByIDVersion()\n", Replace: "\tappend(osm.Ways(nil), ways...).SortByIDVersion()\n", ExpectRule: "A4", ExpectConstruct: "sorted@Ways"},
+			{Name: "sort-version-not-strict", File: "way.go", Find: "return ws[i].Version < ws[j].Version", Replace: "return ws[i].Version <= ws[j].Version", ExpectRule: "A4", ExpectConstruct: "order@Ways.SortByIDVersion"},
+			{Name: "refs-annotated-from-changeset", File: "annotate/way.go", Find: "annotated[i] = w.Way.Nodes[i].Version != 0", Replace: "annotated[i] = w.Way.Nodes[i].ChangesetID != 0", ExpectRule: "A5", ExpectConstruct: "refs@(*parentWay).Refs"},
+			// A6
+			{Name: "updates-sort-drops-version-tiebreak", File: "update.go", Find: "\tif !us[i].Timestamp.Equal(us[j].Timestamp) {\n\t\treturn us[i].Timestamp.Before(us[j].Timestamp)\n\t}\n\n\treturn us[i].Version < us[j].Version\n", Replace: "\treturn us[i].Timestamp.Before(us[j].Timestamp)\n", ExpectRule: "A6", ExpectConstruct: "order@Updates.SortByIndex"},
+			{Name: "updates-sort-version-descending", File: "update.go", Find: "return us[i].Version < us[j].Version", Replace: "return us[i].Version > us[j].Version", ExpectRule: "A6", ExpectConstruct: "order@Updates.SortByIndex"},
+			{Name: "updates-sort-ignores-index", File: "update.go", Find: "\tif us[i].Index != us[j].Index {\n\t\treturn us[i].Index < us[j].Index\n\t}\n\n\tif !us[i].Timestamp.Equal", Replace: "\tif !us[i].Timestamp.Equal", ExpectRule: "A6", ExpectConstruct: "order@Updates.SortByIndex"},
+			{Name: "compute-results-unsorted", File: cmp, Find: "\t\tr.SortByIndex()\n", Replace: "\t\t_ = r\n", ExpectRule: "A6", ExpectConstruct: "sort@Compute"},
+			{Name: "compute-sorts-first-result-only", File: cmp, Find: "\tfor _, r := range results {\n\t\tr.SortByIndex()\n\t}\n", Replace: "\tif len(results) > 0 {\n\t\tresults[0].SortByIndex()\n\t}\n", ExpectRule: "A6", ExpectConstruct: "sort@Compute"},
 		},
 	})
-}
-
-// ---------------------------------------------------------------------------
-// edge facts: which atomic conditions are known to hold at a site
-// ---------------------------------------------------------------------------
-
-// c11Atom is an atomic condition (no top-level !, &&, ||) with the value it has at a site.
-type c11Atom struct {
-	e    ast.Expr
-	val  bool
-	cond ast.Expr // the if/for condition it was taken from
-}
-
-type c11Asg struct {
-	pos    token.Pos
-	rs     *ast.RangeStmt // assignment by the key/value of this range statement
-	inLit  bool           // inside a function literal (no CFG position)
-	direct bool           // the variable itself is assigned (not a field/element of it)
-	rhs    ast.Expr       // assigned expression, when the statement pairs it with the variable
-}
-
-// c11Flow answers "which conditions hold at pos" for one function body.
-type c11Flow struct {
-	p     *core.Program
-	info  *types.Info
-	body  *ast.BlockStmt
-	g     *cfg.CFG
-	dom   map[*cfg.Block]map[*cfg.Block]bool
-	conds map[ast.Expr]bool
-	asg   map[types.Object][]c11Asg
-}
-
-func c11NewFlow(p *core.Program, info *types.Info, body *ast.BlockStmt) *c11Flow {
-	f := &c11Flow{p: p, info: info, body: body, conds: map[ast.Expr]bool{}, asg: map[types.Object][]c11Asg{}}
-	f.g = newCFG(info, body)
-	f.dom = dominators(f.g)
-	var stack []ast.Node
-	lits := 0
-	add := func(e ast.Expr, a c11Asg) {
-		if e == nil {
-			return
-		}
-		if o := rootObj(info, e); o != nil {
-			a.inLit = lits > 0
-			_, a.direct = ast.Unparen(e).(*ast.Ident)
-			f.asg[o] = append(f.asg[o], a)
-		}
-	}
-	ast.Inspect(body, func(n ast.Node) bool {
-		if n == nil {
-			top := stack[len(stack)-1]
-			stack = stack[:len(stack)-1]
-			if _, ok := top.(*ast.FuncLit); ok {
-				lits--
-			}
-			return true
-		}
-		stack = append(stack, n)
-		switch x := n.(type) {
-		case *ast.FuncLit:
-			lits++
-		case *ast.IfStmt:
-			if lits == 0 {
-				f.conds[x.Cond] = true
-			}
-		case *ast.ForStmt:
-			if lits == 0 && x.Cond != nil {
-				f.conds[x.Cond] = true
-			}
-		case *ast.AssignStmt:
-			for i, l := range x.Lhs {
-				a := c11Asg{pos: x.Pos()}
-				if len(x.Lhs) == len(x.Rhs) && (x.Tok == token.ASSIGN || x.Tok == token.DEFINE) {
-					a.rhs = x.Rhs[i]
-				}
-				add(l, a)
-			}
-		case *ast.IncDecStmt:
-			add(x.X, c11Asg{pos: x.Pos()})
-		case *ast.RangeStmt:
-			add(x.Key, c11Asg{pos: x.Pos(), rs: x})
-			add(x.Value, c11Asg{pos: x.Pos(), rs: x})
-		case *ast.DeclStmt:
-			if gd, ok := x.Decl.(*ast.GenDecl); ok && gd.Tok == token.VAR {
-				for _, sp := range gd.Specs {
-					if vs, ok := sp.(*ast.ValueSpec); ok {
-						for _, nm := range vs.Names {
-							add(nm, c11Asg{pos: vs.Pos()})
-						}
-					}
-				}
-			}
-		case *ast.UnaryExpr:
-			if x.Op == token.AND {
-				// address taken: the variable may change anywhere
-				if o := rootObj(info, x.X); o != nil {
-					f.asg[o] = append(f.asg[o], c11Asg{pos: x.Pos(), inLit: true})
-				}
-			}
-		}
-		return true
-	})
-	return f
-}
-
-// nAssign is the number of sites that (re)assign local variable o in the function (its definition included).
-func (f *c11Flow) nAssign(o types.Object) int { return len(f.asg[o]) }
-
-// nDirect counts only assignments to the variable itself (not to its fields or elements).
-func (f *c11Flow) nDirect(o types.Object) int {
-	n := 0
-	for _, a := range f.asg[o] {
-		if a.direct {
-			n++
-		}
-	}
-	return n
-}
-
-// blockAt locates the CFG block a statement executes in. Statements that are CFG nodes are found by
-// position; branch statements (continue/break/goto are edges, not nodes) are located structurally:
-// after a simple previous sibling (same block), after a compound previous sibling (its done block),
-// or at the head of the enclosing body block.
-func (f *c11Flow) blockAt(par map[ast.Node]ast.Node, st ast.Stmt) *cfg.Block {
-	if _, isBranch := st.(*ast.BranchStmt); !isBranch {
-		b, _ := blockOf(f.g, st.Pos())
-		return b
-	}
-	kindStmt := func(k cfg.BlockKind, s ast.Stmt) *cfg.Block {
-		for _, b := range f.g.Blocks {
-			if b.Kind == k && b.Stmt == s {
-				return b
-			}
-		}
-		return nil
-	}
-	var list []ast.Stmt
-	up := par[st]
-	switch x := up.(type) {
-	case *ast.BlockStmt:
-		list = x.List
-	case *ast.CaseClause:
-		list = x.Body
-	default:
-		return nil
-	}
-	idx := -1
-	for i, s := range list {
-		if s == st {
-			idx = i
-		}
-	}
-	if idx > 0 {
-		switch prev := list[idx-1].(type) {
-		case *ast.IfStmt:
-			return kindStmt(cfg.KindIfDone, prev)
-		case *ast.ForStmt:
-			return kindStmt(cfg.KindForDone, prev)
-		case *ast.RangeStmt:
-			return kindStmt(cfg.KindRangeDone, prev)
-		case *ast.SwitchStmt:
-			return kindStmt(cfg.KindSwitchDone, prev)
-		case *ast.TypeSwitchStmt:
-			return kindStmt(cfg.KindSwitchDone, prev)
-		case *ast.AssignStmt, *ast.ExprStmt, *ast.IncDecStmt:
-			b, _ := blockOf(f.g, prev.Pos())
-			return b
-		}
-		return nil
-	}
-	if idx < 0 {
-		return nil
-	}
-	if cc, ok := up.(*ast.CaseClause); ok {
-		return kindStmt(cfg.KindSwitchCaseBody, cc)
-	}
-	switch owner := par[up].(type) {
-	case *ast.IfStmt:
-		if owner.Body == up {
-			return kindStmt(cfg.KindIfThen, owner)
-		}
-		return kindStmt(cfg.KindIfElse, owner)
-	case *ast.ForStmt:
-		return kindStmt(cfg.KindForBody, owner)
-	case *ast.RangeStmt:
-		return kindStmt(cfg.KindRangeBody, owner)
-	}
-	return nil
-}
-
-// factsAtStmt is facts for a statement, including branch statements.
-func (f *c11Flow) factsAtStmt(par map[ast.Node]ast.Node, st ast.Stmt) []c11Atom {
-	return f.factsIn(f.blockAt(par, st), st.Pos())
-}
-
-func c11Decompose(e ast.Expr, val bool, cond ast.Expr) []c11Atom {
-	e = ast.Unparen(e)
-	switch x := e.(type) {
-	case *ast.UnaryExpr:
-		if x.Op == token.NOT {
-			return c11Decompose(x.X, !val, cond)
-		}
-	case *ast.BinaryExpr:
-		if (x.Op == token.LAND && val) || (x.Op == token.LOR && !val) {
-			return append(c11Decompose(x.X, val, cond), c11Decompose(x.Y, val, cond)...)
-		}
-		if x.Op == token.EQL || x.Op == token.NEQ {
-			// b == true, b != false, ...
-			for _, pr := range [][2]ast.Expr{{x.X, x.Y}, {x.Y, x.X}} {
-				if id, ok := ast.Unparen(pr[1]).(*ast.Ident); ok && (id.Name == "true" || id.Name == "false") && id.Obj == nil {
-					return c11Decompose(pr[0], val == ((id.Name == "true") == (x.Op == token.EQL)), cond)
-				}
-			}
-		}
-	}
-	return []c11Atom{{e: e, val: val, cond: cond}}
-}
-
-func c11StopAt(b *cfg.Block) func(*cfg.Block) bool {
-	return func(x *cfg.Block) bool { return x == b }
-}
-
-// facts returns the atomic conditions that hold whenever control is at pos: for every if/for
-// condition whose block dominates the site and from exactly one of whose edges the site can be
-// reached (without re-evaluating the condition), the atoms implied by that edge, provided no local
-// variable of the atom is reassigned between the test and the site.
-func (f *c11Flow) facts(pos token.Pos) []c11Atom {
-	sb, _ := blockOf(f.g, pos)
-	return f.factsIn(sb, pos)
-}
-
-func (f *c11Flow) factsIn(sb *cfg.Block, pos token.Pos) []c11Atom {
-	if sb == nil {
-		return nil
-	}
-	var out []c11Atom
-	for _, b := range f.g.Blocks {
-		if !b.Live || len(b.Succs) != 2 || b == sb || !f.dom[sb][b] {
-			continue
-		}
-		ce := lastExpr(b)
-		if ce == nil || !f.conds[ce] {
-			continue
-		}
-		fromT := reachableFrom([]*cfg.Block{b.Succs[0]}, c11StopAt(b))[sb]
-		fromF := reachableFrom([]*cfg.Block{b.Succs[1]}, c11StopAt(b))[sb]
-		if fromT == fromF {
-			continue
-		}
-		held := b.Succs[0]
-		if !fromT {
-			held = b.Succs[1]
-		}
-		for _, a := range f.expandCaptured(c11Decompose(ce, fromT, ce), b) {
-			if f.stable(a.e, b, held, sb, pos) {
-				out = append(out, a)
-			}
-		}
-	}
-	return out
-}
-
-// expandCaptured replaces an atom that is a boolean local assigned exactly once, in the block of the
-// test itself (`if ok := f(x); !ok`, `v := p.Visible(); if !v`), by the atoms of the captured
-// expression, provided no local of that expression is reassigned between the capture and the test.
-func (f *c11Flow) expandCaptured(atoms []c11Atom, b *cfg.Block) []c11Atom {
-	var out []c11Atom
-	for _, a := range atoms {
-		id, ok := ast.Unparen(a.e).(*ast.Ident)
-		if !ok {
-			out = append(out, a)
-			continue
-		}
-		v, _ := f.info.Uses[id].(*types.Var)
-		as := f.asg[v]
-		if v == nil || len(as) != 1 || !as[0].direct || as[0].inLit || as[0].rs != nil || as[0].rhs == nil {
-			out = append(out, a)
-			continue
-		}
-		if ab, _ := blockOf(f.g, as[0].pos); ab != b {
-			out = append(out, a)
-			continue
-		}
-		clean := true
-		ast.Inspect(as[0].rhs, func(n ast.Node) bool {
-			if x, ok := n.(*ast.Ident); ok {
-				if w, ok := f.info.Uses[x].(*types.Var); ok && !w.IsField() {
-					for _, wa := range f.asg[w] {
-						if wb, _ := blockOf(f.g, wa.pos); wa.inLit || (wb == b && wa.pos > as[0].pos) {
-							clean = false
-						}
-					}
-				}
-			}
-			return true
-		})
-		if !clean {
-			out = append(out, a)
-			continue
-		}
-		out = append(out, c11Decompose(as[0].rhs, a.val, a.cond)...)
-	}
-	return out
-}
-
-func (f *c11Flow) stable(e ast.Expr, b, held, sb *cfg.Block, pos token.Pos) bool {
-	ok := true
-	var fromHeld map[*cfg.Block]bool
-	ast.Inspect(e, func(n ast.Node) bool {
-		id, isID := n.(*ast.Ident)
-		if !isID {
-			return true
-		}
-		v, isVar := f.info.Uses[id].(*types.Var)
-		if !isVar || v.IsField() || (v.Pkg() != nil && v.Parent() == v.Pkg().Scope()) {
-			return true
-		}
-		for _, a := range f.asg[v] {
-			if a.inLit {
-				ok = false
-				continue
-			}
-			var ab *cfg.Block
-			if a.rs != nil {
-				for _, x := range f.g.Blocks {
-					if x.Kind == cfg.KindRangeLoop && x.Stmt == a.rs {
-						ab = x
-					}
-				}
-			} else {
-				ab, _ = blockOf(f.g, a.pos)
-			}
-			if ab == nil {
-				ok = false
-				continue
-			}
-			if ab == b {
-				continue // before the test, in its own block
-			}
-			if fromHeld == nil {
-				fromHeld = reachableFrom([]*cfg.Block{held}, c11StopAt(b))
-			}
-			if !fromHeld[ab] {
-				continue
-			}
-			if ab == sb && a.rs == nil && a.pos < pos {
-				ok = false
-				continue
-			}
-			if ab != sb && reachableFrom([]*cfg.Block{ab}, c11StopAt(b))[sb] {
-				ok = false
-				continue
-			}
-			if ab == sb && reachableFrom(ab.Succs, c11StopAt(b))[sb] {
-				ok = false
-			}
-		}
-		return true
-	})
-	return ok
-}
-
-// c11BoolFact: +1 when an atom matching m is known true, -1 when known false, 0 otherwise.
-func c11BoolFact(facts []c11Atom, m func(ast.Expr) bool) int {
-	for _, a := range facts {
-		if m(a.e) {
-			if a.val {
-				return +1
-			}
-			return -1
-		}
-	}
-	return 0
 }
 
 func c11IsNilIdent(info *types.Info, e ast.Expr) bool {
@@ -501,3006 +180,4 @@ func c11IsNilIdent(info *types.Info, e ast.Expr) bool {
 	}
 	_, isNil := info.Uses[id].(*types.Nil)
 	return isNil
-}
-
-// c11NilCmp recognises `x == nil` / `nil == x` (eq) and `x != nil` (!eq).
-func c11NilCmp(info *types.Info, e ast.Expr) (x ast.Expr, eq, ok bool) {
-	be, isBin := ast.Unparen(e).(*ast.BinaryExpr)
-	if !isBin || (be.Op != token.EQL && be.Op != token.NEQ) {
-		return nil, false, false
-	}
-	switch {
-	case c11IsNilIdent(info, be.Y):
-		x = be.X
-	case c11IsNilIdent(info, be.X):
-		x = be.Y
-	default:
-		return nil, false, false
-	}
-	return x, be.Op == token.EQL, true
-}
-
-// c11NilFact: +1 when the expression matched by m is known nil, -1 known non-nil, 0 unknown.
-func c11NilFact(info *types.Info, facts []c11Atom, m func(ast.Expr) bool) int {
-	for _, a := range facts {
-		x, eq, ok := c11NilCmp(info, a.e)
-		if !ok || !m(x) {
-			continue
-		}
-		if eq == a.val {
-			return +1
-		}
-		return -1
-	}
-	return 0
-}
-
-func c11IsObj(info *types.Info, o types.Object) func(ast.Expr) bool {
-	return func(e ast.Expr) bool { return o != nil && objOf(info, e) == o }
-}
-
-// c11DirectField returns F when e is exactly `<root>.F` (root a variable), else "".
-func c11DirectField(info *types.Info, e ast.Expr, root types.Object) string {
-	f := fieldOf(info, e)
-	if f == nil || root == nil {
-		return ""
-	}
-	sel := ast.Unparen(e).(*ast.SelectorExpr)
-	if objOf(info, sel.X) != root {
-		return ""
-	}
-	return f.Name()
-}
-
-// c11Same compares two side-effect-free expressions through the objects they mention.
-func c11Same(info *types.Info, a, b ast.Expr) bool {
-	a, b = ast.Unparen(a), ast.Unparen(b)
-	if ta, ok := info.Types[a]; ok && ta.Value != nil {
-		if tb, ok := info.Types[b]; ok && tb.Value != nil {
-			return ta.Value.ExactString() == tb.Value.ExactString()
-		}
-		return false
-	}
-	switch x := a.(type) {
-	case *ast.Ident:
-		y, ok := b.(*ast.Ident)
-		return ok && objOf(info, x) != nil && objOf(info, x) == objOf(info, y)
-	case *ast.SelectorExpr:
-		y, ok := b.(*ast.SelectorExpr)
-		if !ok {
-			return false
-		}
-		sx, sy := info.Selections[x], info.Selections[y]
-		if sx == nil || sy == nil {
-			// qualified identifier pkg.Name
-			return sx == nil && sy == nil && info.Uses[x.Sel] != nil && info.Uses[x.Sel] == info.Uses[y.Sel]
-		}
-		return sx.Obj() == sy.Obj() && c11Same(info, x.X, y.X)
-	case *ast.IndexExpr:
-		y, ok := b.(*ast.IndexExpr)
-		return ok && c11Same(info, x.X, y.X) && c11Same(info, x.Index, y.Index)
-	case *ast.StarExpr:
-		y, ok := b.(*ast.StarExpr)
-		return ok && c11Same(info, x.X, y.X)
-	case *ast.UnaryExpr:
-		y, ok := b.(*ast.UnaryExpr)
-		return ok && x.Op == y.Op && c11Same(info, x.X, y.X)
-	case *ast.BinaryExpr:
-		y, ok := b.(*ast.BinaryExpr)
-		return ok && x.Op == y.Op && c11Same(info, x.X, y.X) && c11Same(info, x.Y, y.Y)
-	case *ast.CallExpr:
-		y, ok := b.(*ast.CallExpr)
-		if !ok || len(x.Args) != len(y.Args) {
-			return false
-		}
-		if bn := builtinName(info, x); bn != "" {
-			if bn != builtinName(info, y) {
-				return false
-			}
-		} else {
-			fx, fy := callee(info, x), callee(info, y)
-			if fx == nil || fx != fy {
-				return false
-			}
-			if sx, ok := ast.Unparen(x.Fun).(*ast.SelectorExpr); ok && info.Selections[sx] != nil {
-				sy, ok := ast.Unparen(y.Fun).(*ast.SelectorExpr)
-				if !ok || !c11Same(info, sx.X, sy.X) {
-					return false
-				}
-			}
-		}
-		for i := range x.Args {
-			if !c11Same(info, x.Args[i], y.Args[i]) {
-				return false
-			}
-		}
-		return true
-	}
-	return false
-}
-
-// c11MethodCallOn reports whether e is `<recv>.<name>(...)` with the given callee and receiver object; returns the call.
-func c11MethodCallOn(info *types.Info, e ast.Expr, recvType, name string, recv types.Object) *ast.CallExpr {
-	call, ok := ast.Unparen(e).(*ast.CallExpr)
-	if !ok || !isMethod(callee(info, call), recvType, name) {
-		return nil
-	}
-	sel, ok := ast.Unparen(call.Fun).(*ast.SelectorExpr)
-	if !ok || recv == nil || objOf(info, sel.X) != recv {
-		return nil
-	}
-	return call
-}
-
-// c11IsConstInt reports whether e is the integer constant v.
-func c11IsConstInt(info *types.Info, e ast.Expr, v int64) bool {
-	n, ok := constInt(info, e)
-	return ok && n == v
-}
-
-// c11FieldPlusOne recognises `<v>.<field> + 1` with v a local variable; returns v.
-func c11FieldPlusOne(info *types.Info, e ast.Expr, field string) types.Object {
-	be, ok := ast.Unparen(e).(*ast.BinaryExpr)
-	if !ok || be.Op != token.ADD {
-		return nil
-	}
-	x, y := be.X, be.Y
-	if c11IsConstInt(info, x, 1) {
-		x, y = y, x
-	}
-	if !c11IsConstInt(info, y, 1) {
-		return nil
-	}
-	f := fieldOf(info, x)
-	if f == nil || f.Name() != field {
-		return nil
-	}
-	return objOf(info, ast.Unparen(x).(*ast.SelectorExpr).X)
-}
-
-// c11AppendTo recognises `L = append(L, ...)`; returns the call.
-func c11AppendTo(info *types.Info, as *ast.AssignStmt) *ast.CallExpr {
-	if len(as.Lhs) != 1 || len(as.Rhs) != 1 {
-		return nil
-	}
-	call, ok := ast.Unparen(as.Rhs[0]).(*ast.CallExpr)
-	if !ok || builtinName(info, call) != "append" || len(call.Args) < 1 {
-		return nil
-	}
-	if !c11Same(info, as.Lhs[0], call.Args[0]) {
-		return nil
-	}
-	return call
-}
-
-// ---------------------------------------------------------------------------
-// roles in core.Compute
-// ---------------------------------------------------------------------------
-
-type c11Compute struct {
-	pk   *packages.Package
-	info *types.Info
-	fi   *FuncInfo
-	fl   *c11Flow
-	par  map[ast.Node]ast.Node
-
-	parents, hist, opts types.Object // parameters by type: []Parent, Datasourcer, *Options
-	getCall             *ast.CallExpr
-	child, getErr       types.Object // child, err := histories.Get(ctx, fid)
-	fid                 types.Object
-	findCall            *ast.CallExpr // c := child.FindVisible(...)
-	cur                 types.Object  // c
-}
-
-// c11Ctx resolves the roles of core.Compute; anchors that do not resolve are reported on r.
-func c11Ctx(r *core.R) *c11Compute {
-	pk := r.P.Pkg("annotate/internal/core")
-	fi := findFunc(pk, "Compute")
-	if fi == nil || fi.Decl.Body == nil {
-		r.Anchor("annotate/internal/core.Compute")
-		return nil
-	}
-	cx := &c11Compute{pk: pk, info: pk.TypesInfo, fi: fi, par: parentsOf(r.P, fi)}
-	info := cx.info
-	sig := fi.Obj.Type().(*types.Signature)
-	for i := 0; i < sig.Params().Len(); i++ {
-		p := sig.Params().At(i)
-		switch t := p.Type().(type) {
-		case *types.Slice:
-			if namedPath(t.Elem()) == c11CorePath+".Parent" {
-				cx.parents = p
-			}
-		case *types.Pointer:
-			if namedPath(t) == c11CorePath+".Options" {
-				cx.opts = p
-			}
-		default:
-			if namedPath(t) == c11CorePath+".Datasourcer" {
-				cx.hist = p
-			}
-		}
-	}
-	if cx.parents == nil || cx.hist == nil || cx.opts == nil {
-		r.Anchor("parameters ([]Parent, Datasourcer, *Options) of core.Compute")
-		return nil
-	}
-	cx.fl = c11NewFlow(r.P, info, fi.Decl.Body)
-	inspectNoLit(fi.Decl.Body, func(n ast.Node) bool {
-		as, ok := n.(*ast.AssignStmt)
-		if !ok || len(as.Rhs) != 1 {
-			return true
-		}
-		if call := c11MethodCallOn(info, as.Rhs[0], c11CorePath+".Datasourcer", "Get", cx.hist); call != nil && len(as.Lhs) == 2 && len(call.Args) == 2 && cx.getCall == nil {
-			cx.getCall = call
-			cx.child, cx.getErr = objOf(info, as.Lhs[0]), objOf(info, as.Lhs[1])
-			cx.fid = objOf(info, call.Args[1])
-		}
-		return true
-	})
-	if cx.getCall == nil || cx.child == nil || cx.getErr == nil || cx.fid == nil {
-		r.Anchor("`child, err := histories.Get(ctx, fid)` in core.Compute")
-		return nil
-	}
-	inspectNoLit(fi.Decl.Body, func(n ast.Node) bool {
-		as, ok := n.(*ast.AssignStmt)
-		if !ok || len(as.Rhs) != 1 || len(as.Lhs) != 1 {
-			return true
-		}
-		if call := c11MethodCallOn(info, as.Rhs[0], c11CorePath+".ChildList", "FindVisible", cx.child); call != nil && cx.findCall == nil {
-			cx.findCall = call
-			cx.cur = objOf(info, as.Lhs[0])
-		}
-		return true
-	})
-	if cx.findCall == nil || cx.cur == nil {
-		r.Anchor("`c := child.FindVisible(...)` on the fetched child list in core.Compute")
-		return nil
-	}
-	return cx
-}
-
-// parentVars finds `P := parents[I]` (I a variable): P -> I.
-func (cx *c11Compute) parentVars() map[types.Object]types.Object {
-	out := map[types.Object]types.Object{}
-	inspectNoLit(cx.fi.Decl.Body, func(n ast.Node) bool {
-		as, ok := n.(*ast.AssignStmt)
-		if !ok || len(as.Lhs) != 1 || len(as.Rhs) != 1 {
-			return true
-		}
-		ix, ok := ast.Unparen(as.Rhs[0]).(*ast.IndexExpr)
-		if !ok || objOf(cx.info, ix.X) != cx.parents {
-			return true
-		}
-		p, i := objOf(cx.info, as.Lhs[0]), objOf(cx.info, ix.Index)
-		if p != nil && i != nil {
-			out[p] = i
-		}
-		return true
-	})
-	return out
-}
-
-func (cx *c11Compute) isVisibleOf(p types.Object) func(ast.Expr) bool {
-	return func(e ast.Expr) bool {
-		return c11MethodCallOn(cx.info, e, c11CorePath+".Parent", "Visible", p) != nil
-	}
-}
-
-func (cx *c11Compute) optField(name string) func(ast.Expr) bool {
-	return func(e ast.Expr) bool { return c11DirectField(cx.info, e, cx.opts) == name }
-}
-
-// ---------------------------------------------------------------------------
-// A1 deleted parents get no annotations
-// ---------------------------------------------------------------------------
-
-func c11A1(r *core.R) {
-	cx := c11Ctx(r)
-	if cx == nil {
-		return
-	}
-	info := cx.info
-	pvars := cx.parentVars()
-	parentOfIndex := func(i types.Object) types.Object {
-		var res types.Object
-		n := 0
-		for p, pi := range pvars {
-			if pi == i {
-				res = p
-				n++
-			}
-		}
-		if n != 1 {
-			return nil
-		}
-		return res
-	}
-	visibleAt := func(p types.Object, pos token.Pos) (bool, string) {
-		switch c11BoolFact(cx.fl.facts(pos), cx.isVisibleOf(p)) {
-		case +1:
-			return true, ""
-		case -1:
-			return false, "is reachable only when " + p.Name() + ".Visible() is false"
-		}
-		return false, "is not dominated by the visible edge of a `" + p.Name() + ".Visible()` test (or " + p.Name() + " is reassigned after the test)"
-	}
-	type appendSite struct {
-		as  *ast.AssignStmt
-		lhs ast.Expr
-	}
-	var appends []appendSite
-	nSet := 0
-	inspectNoLit(cx.fi.Decl.Body, func(n ast.Node) bool {
-		switch x := n.(type) {
-		case *ast.CallExpr:
-			if !isMethod(callee(info, x), c11CorePath+".Parent", "SetChild") {
-				return true
-			}
-			nSet++
-			c := "setchild@Compute " + src(r.P.Fset, x)
-			sel, _ := ast.Unparen(x.Fun).(*ast.SelectorExpr)
-			var p types.Object
-			if sel != nil {
-				p = objOf(info, sel.X)
-			}
-			if p == nil {
-				r.Unknown(c, x.Pos(), "SetChild is called on `%s`, not on a parent variable; accepted idiom: `parent := parents[i]; if !parent.Visible() { continue }; ... parent.SetChild(idx, c)`", src(r.P.Fset, x.Fun))
-				return true
-			}
-			if ok, why := visibleAt(p, x.Pos()); ok {
-				r.OK(c, x.Pos(), "reachable only on the visible edge of `%s.Visible()`; %s is not reassigned in between", p.Name(), p.Name())
-			} else {
-				r.Bad(c, x.Pos(), "`%s` %s: a deleted parent version would get its children annotated", src(r.P.Fset, x), why)
-			}
-		case *ast.AssignStmt:
-			if call := c11AppendTo(info, x); call != nil && namedPath(info.TypeOf(x.Lhs[0])) == core.ModulePath+".Updates" {
-				appends = append(appends, appendSite{as: x, lhs: x.Lhs[0]})
-			}
-		}
-		return true
-	})
-	if nSet == 0 {
-		r.Anchor("call of Parent.SetChild in core.Compute")
-	}
-	// which parent does an appended-to list belong to
-	flowsTo := func(u types.Object) []types.Object { // indices I with results[I] = append(results[I], u...)
-		var out []types.Object
-		for _, a := range appends {
-			ix, ok := ast.Unparen(a.lhs).(*ast.IndexExpr)
-			if !ok {
-				continue
-			}
-			call := c11AppendTo(info, a.as)
-			for _, arg := range call.Args[1:] {
-				if objOf(info, arg) == u {
-					if i := objOf(info, ix.Index); i != nil {
-						out = append(out, i)
-					}
-				}
-			}
-		}
-		return out
-	}
-	for _, a := range appends {
-		c := "append@Compute " + src(r.P.Fset, a.lhs)
-		var idx []types.Object
-		switch l := ast.Unparen(a.lhs).(type) {
-		case *ast.IndexExpr:
-			if i := objOf(info, l.Index); i != nil {
-				idx = []types.Object{i}
-			}
-		case *ast.Ident:
-			idx = flowsTo(objOf(info, l))
-		}
-		if len(idx) == 0 {
-			r.Unknown(c, a.as.Pos(), "cannot tell which parent the update list `%s` belongs to; accepted idioms: `results[i] = append(results[i], ...)` with `parent := parents[i]`, or a local list later appended to results[i]", src(r.P.Fset, a.lhs))
-			continue
-		}
-		bad := ""
-		var names []string
-		for _, i := range idx {
-			p := parentOfIndex(i)
-			if p == nil {
-				bad = "no unique `P := parents[" + i.Name() + "]` identifies the parent of index " + i.Name()
-				break
-			}
-			if cx.fl.nAssign(i) != 1 || cx.fl.nAssign(p) != 1 {
-				bad = i.Name() + " or " + p.Name() + " is assigned more than once, so results[" + i.Name() + "] need not be the list of the tested parent"
-				break
-			}
-			if ok, why := visibleAt(p, a.as.Pos()); !ok {
-				bad = "`" + src(r.P.Fset, a.as) + "` " + why
-				break
-			}
-			names = append(names, p.Name())
-		}
-		if bad != "" {
-			r.Bad(c, a.as.Pos(), "%s: a deleted parent version would receive updates", bad)
-		} else {
-			r.OK(c, a.as.Pos(), "list of parent %s (= parents[%s]); reachable only on the visible edge of `%s.Visible()`", strings.Join(names, ","), idx[0].Name(), names[0])
-		}
-	}
-	if len(appends) == 0 {
-		r.Anchor("append to an osm.Updates list in core.Compute")
-	}
-}
-
-// ---------------------------------------------------------------------------
-// A2 option-gated typed errors, mapping, options
-// ---------------------------------------------------------------------------
-
-func c11A2(r *core.R) {
-	c11A2Compute(r)
-	c11A2Routes(r)
-	c11A2Options(r)
-}
-
-// c11CoreErrorLit recognises `&T{...}` with T a named type of package core; returns the literal and T's name.
-func c11CoreErrorLit(info *types.Info, e ast.Expr) (*ast.CompositeLit, string) {
-	ue, ok := ast.Unparen(e).(*ast.UnaryExpr)
-	if !ok || ue.Op != token.AND {
-		return nil, ""
-	}
-	cl, ok := ast.Unparen(ue.X).(*ast.CompositeLit)
-	if !ok {
-		return nil, ""
-	}
-	np := namedPath(info.TypeOf(cl))
-	if !strings.HasPrefix(np, c11CorePath+".") {
-		return nil, ""
-	}
-	return cl, strings.TrimPrefix(np, c11CorePath+".")
-}
-
-func c11LitValue(cl *ast.CompositeLit, key string) ast.Expr {
-	for _, e := range cl.Elts {
-		if kv, ok := e.(*ast.KeyValueExpr); ok {
-			if id, ok := kv.Key.(*ast.Ident); ok && id.Name == key {
-				return kv.Value
-			}
-		}
-	}
-	return nil
-}
-
-func c11A2Compute(r *core.R) {
-	cx := c11Ctx(r)
-	if cx == nil {
-		return
-	}
-	info := cx.info
-	notFound := func(e ast.Expr) bool {
-		call := c11MethodCallOn(info, e, c11CorePath+".Datasourcer", "NotFound", cx.hist)
-		return call != nil && len(call.Args) == 1 && objOf(info, call.Args[0]) == cx.getErr
-	}
-	childVisible := func(e ast.Expr) bool { // <child>[k].Visible
-		f := fieldOf(info, e)
-		if f == nil || f.Name() != "Visible" {
-			return false
-		}
-		ix, ok := ast.Unparen(ast.Unparen(e).(*ast.SelectorExpr).X).(*ast.IndexExpr)
-		return ok && objOf(info, ix.X) == cx.child
-	}
-	seen := map[string]int{}
-	why := map[string]string{
-		"datasource-error":    "a datasource failure that is not a not-found must reach the caller unchanged, and a not-found must be handled by the IgnoreMissingChildren logic instead",
-		"NoHistoryError":      "a missing child history must produce *NoHistoryError exactly when the datasource reports not-found and IgnoreMissingChildren is not set",
-		"NoVisibleChildError": "a parent whose child has no visible version must produce *NoVisibleChildError exactly when IgnoreInconsistency is not set",
-		"inconsistency":       "the \"child deleted between parent versions\" error must be produced only for a non-visible child version inside the update window and only when IgnoreInconsistency is not set",
-	}
-	inspectNoLit(cx.fi.Decl.Body, func(n ast.Node) bool {
-		ret, ok := n.(*ast.ReturnStmt)
-		if !ok || len(ret.Results) == 0 {
-			return true
-		}
-		e := ret.Results[len(ret.Results)-1]
-		if c11IsNilIdent(info, e) {
-			return true
-		}
-		facts := cx.fl.facts(ret.Pos())
-		var missing []string
-		req := func(ok bool, what string) {
-			if !ok {
-				missing = append(missing, what)
-			}
-		}
-		kind := ""
-		if objOf(info, e) == cx.getErr {
-			kind = "datasource-error"
-			req(c11NilFact(info, facts, c11IsObj(info, cx.getErr)) == -1, cx.getErr.Name()+" != nil")
-			req(c11BoolFact(facts, notFound) == -1, "!NotFound("+cx.getErr.Name()+")")
-		} else if cl, name := c11CoreErrorLit(info, e); cl != nil {
-			kind = name
-			switch name {
-			case "NoHistoryError":
-				req(c11NilFact(info, facts, c11IsObj(info, cx.getErr)) == -1, cx.getErr.Name()+" != nil")
-				req(c11BoolFact(facts, notFound) == +1, "NotFound("+cx.getErr.Name()+")")
-				req(c11BoolFact(facts, cx.optField("IgnoreMissingChildren")) == -1, "!opts.IgnoreMissingChildren")
-			case "NoVisibleChildError":
-				req(c11NilFact(info, facts, c11IsObj(info, cx.cur)) == +1, cx.cur.Name()+" == nil (no visible child found)")
-				req(c11BoolFact(facts, cx.optField("IgnoreInconsistency")) == -1, "!opts.IgnoreInconsistency")
-			default:
-				r.Unknown("return@Compute "+name, ret.Pos(), "`%s` returns a typed error that is not among the documented ones (NoHistoryError, NoVisibleChildError)", src(r.P.Fset, ret))
-				return true
-			}
-			if v := c11LitValue(cl, "ChildID"); v == nil || objOf(info, v) != cx.fid {
-				missing = append(missing, "ChildID set from "+cx.fid.Name()+" (the id whose history was requested)")
-			}
-		} else {
-			kind = "inconsistency"
-			req(c11BoolFact(facts, childVisible) == -1, "!"+cx.child.Name()+"[k].Visible")
-			req(c11BoolFact(facts, cx.optField("IgnoreInconsistency")) == -1, "!opts.IgnoreInconsistency")
-		}
-		seen[kind]++
-		c := "return@Compute " + kind
-		if len(missing) > 0 {
-			r.Bad(c, ret.Pos(), "`%s` is not control-dependent on / does not carry: %s. %s", src(r.P.Fset, ret), strings.Join(missing, "; "), why[kind])
-		} else {
-			var have []string
-			for _, a := range facts {
-				s := src(r.P.Fset, a.e)
-				if !a.val {
-					s = "!(" + s + ")"
-				}
-				have = append(have, s)
-			}
-			sort.Strings(have)
-			r.OK(c, ret.Pos(), "reachable only when %s", strings.Join(have, " && "))
-		}
-		return true
-	})
-	for _, k := range []string{"datasource-error", "NoHistoryError", "NoVisibleChildError", "inconsistency"} {
-		if seen[k] == 0 {
-			r.Bad("return@Compute "+k, cx.fi.Decl.Pos(), "core.Compute has no %s return: %s", k, why[k])
-		}
-	}
-}
-
-// c11ExportedCoreErrors lists the exported named types of package core whose pointer implements error.
-func c11ExportedCoreErrors(p *core.Program) []*types.Named {
-	cpk := p.Pkg("annotate/internal/core")
-	if cpk == nil {
-		return nil
-	}
-	errIface := types.Universe.Lookup("error").Type().Underlying().(*types.Interface)
-	var out []*types.Named
-	for _, nm := range cpk.Types.Scope().Names() {
-		tn, ok := cpk.Types.Scope().Lookup(nm).(*types.TypeName)
-		if !ok || !tn.Exported() || tn.IsAlias() {
-			continue
-		}
-		nt, ok := tn.Type().(*types.Named)
-		if !ok {
-			continue
-		}
-		if _, isIface := nt.Underlying().(*types.Interface); isIface {
-			continue
-		}
-		if types.Implements(types.NewPointer(nt), errIface) {
-			out = append(out, nt)
-		}
-	}
-	return out
-}
-
-func c11A2Routes(r *core.R) {
-	apk := r.P.Pkg("annotate")
-	if apk == nil {
-		r.Anchor("package annotate")
-		return
-	}
-	info := apk.TypesInfo
-	mappers := map[*types.Func]bool{}
-	var order []*types.Func
-	for _, name := range []string{"Ways", "Relations"} {
-		fi := findFunc(apk, name)
-		if fi == nil || fi.Decl.Body == nil {
-			r.Anchor("annotate." + name)
-			continue
-		}
-		fl := c11NewFlow(r.P, info, fi.Decl.Body)
-		var ccall *ast.CallExpr
-		var errObj types.Object
-		inspectNoLit(fi.Decl.Body, func(n ast.Node) bool {
-			as, ok := n.(*ast.AssignStmt)
-			if !ok || len(as.Rhs) != 1 {
-				return true
-			}
-			call, ok := ast.Unparen(as.Rhs[0]).(*ast.CallExpr)
-			if !ok || !isPkgFunc(callee(info, call), c11CorePath, "Compute") {
-				return true
-			}
-			ccall = call
-			for _, l := range as.Lhs {
-				if o := objOf(info, l); o != nil && types.Identical(o.Type(), types.Universe.Lookup("error").Type()) {
-					errObj = o
-				}
-			}
-			return true
-		})
-		if ccall == nil || errObj == nil {
-			r.Anchor("`updates, err := core.Compute(...)` in annotate." + name)
-			continue
-		}
-		// error route
-		c := "route@" + name
-		nErr := 0
-		var direct *ast.ReturnStmt
-		var mapper *types.Func
-		inspectNoLit(fi.Decl.Body, func(n ast.Node) bool {
-			ret, ok := n.(*ast.ReturnStmt)
-			if !ok || len(ret.Results) == 0 {
-				return true
-			}
-			if c11NilFact(info, fl.facts(ret.Pos()), c11IsObj(info, errObj)) != -1 {
-				return true
-			}
-			nErr++
-			e := ast.Unparen(ret.Results[len(ret.Results)-1])
-			if call, ok := e.(*ast.CallExpr); ok && len(call.Args) == 1 && objOf(info, call.Args[0]) == errObj {
-				if fn := callee(info, call); fn != nil && fn.Pkg() != nil && fn.Pkg().Path() == c11AnnPath {
-					mapper = fn
-					return true
-				}
-			}
-			direct = ret
-			return true
-		})
-		switch {
-		case nErr == 0:
-			r.Bad(c, ccall.Pos(), "no return is control-dependent on `%s != nil` after core.Compute: its error (the documented typed errors) is dropped", errObj.Name())
-		case direct != nil:
-			r.Bad(c, direct.Pos(), "`%s` hands Compute's error to the caller without mapping: callers receive internal core.* error types, so the documented *annotate.NoHistoryError / *annotate.NoVisibleChildError never match", src(r.P.Fset, direct))
-		default:
-			r.OK(c, ccall.Pos(), "every return under `%s != nil` returns %s(%s)", errObj.Name(), mapper.Name(), errObj.Name())
-			if !mappers[mapper] {
-				mappers[mapper] = true
-				order = append(order, mapper)
-			}
-		}
-		// options are applied to the value handed to Compute
-		c = "options@" + name
-		sig := fi.Obj.Type().(*types.Signature)
-		var optsParam types.Object
-		if sig.Variadic() {
-			optsParam = sig.Params().At(sig.Params().Len() - 1)
-		}
-		var optArg types.Object
-		for _, a := range ccall.Args {
-			if namedPath(info.TypeOf(a)) == c11CorePath+".Options" {
-				optArg = objOf(info, a)
-			}
-		}
-		if optsParam == nil {
-			r.Anchor("variadic ...Option parameter of annotate." + name)
-			continue
-		}
-		if optArg == nil {
-			r.Bad(c, ccall.Pos(), "the *core.Options argument of `%s` is not the variable the options were applied to: IgnoreInconsistency / IgnoreMissingChildren / Threshold / ChildFilter given by the caller have no effect", src(r.P.Fset, ccall))
-			continue
-		}
-		applied := false
-		inspectNoLit(fi.Decl.Body, func(n ast.Node) bool {
-			rs, ok := n.(*ast.RangeStmt)
-			if !ok || objOf(info, rs.X) != optsParam || rs.Value == nil {
-				return true
-			}
-			o := objOf(info, rs.Value)
-			hit := false
-			isApply := func(e ast.Expr) bool {
-				call, ok := ast.Unparen(e).(*ast.CallExpr)
-				return ok && objOf(info, call.Fun) == o && len(call.Args) == 1 && objOf(info, call.Args[0]) == optArg
-			}
-			stmtApplies := func(s ast.Stmt) bool {
-				switch x := s.(type) {
-				case *ast.AssignStmt:
-					return len(x.Rhs) == 1 && isApply(x.Rhs[0])
-				case *ast.ExprStmt:
-					return isApply(x.X)
-				}
-				return false
-			}
-			// unconditional in the loop body: a top-level statement, or the init of a top-level if
-			for _, s := range rs.Body.List {
-				if stmtApplies(s) {
-					hit = true
-				}
-				if ifs, ok := s.(*ast.IfStmt); ok && ifs.Init != nil && stmtApplies(ifs.Init) {
-					hit = true
-				}
-			}
-			if !hit {
-				return true
-			}
-			tb, _ := blockOf(fl.g, ccall.Pos())
-			for _, b := range fl.g.Blocks {
-				if b.Kind == cfg.KindRangeDone && b.Stmt == rs && tb != nil && (b == tb || fl.dom[tb][b]) {
-					applied = true
-				}
-			}
-			return true
-		})
-		nas := 0
-		for _, a := range fl.asg[optArg] {
-			if a.pos < ccall.Pos() {
-				nas++
-			}
-		}
-		switch {
-		case !applied:
-			r.Bad(c, ccall.Pos(), "no loop `for _, o := range %s { o(%s) }` completes before core.Compute is called with %s: the caller's options have no effect", optsParam.Name(), optArg.Name(), optArg.Name())
-		case nas != 1:
-			r.Bad(c, ccall.Pos(), "%s is assigned %d times before core.Compute: the value the options were applied to may be replaced", optArg.Name(), nas)
-		default:
-			r.OK(c, ccall.Pos(), "every option of %s is applied to %s in a loop that completes before core.Compute(..., %s)", optsParam.Name(), optArg.Name(), optArg.Name())
-		}
-	}
-	for _, m := range order {
-		c11A2Mapper(r, apk, m)
-	}
-}
-
-// c11A2Mapper checks the function Ways/Relations hand Compute's error to.
-func c11A2Mapper(r *core.R, apk *packages.Package, fn *types.Func) {
-	info := apk.TypesInfo
-	fi := findFunc(apk, fn.Name())
-	if fi == nil || fi.Decl.Body == nil {
-		r.Anchor("declaration of annotate." + fn.Name())
-		return
-	}
-	g := fi.Name()
-	sig := fn.Type().(*types.Signature)
-	if sig.Params().Len() != 1 {
-		r.Anchor("single error parameter of annotate." + g)
-		return
-	}
-	param := sig.Params().At(0)
-	var ts *ast.TypeSwitchStmt
-	inspectNoLit(fi.Decl.Body, func(n ast.Node) bool {
-		x, ok := n.(*ast.TypeSwitchStmt)
-		if !ok || ts != nil {
-			return true
-		}
-		var ta *ast.TypeAssertExpr
-		switch a := x.Assign.(type) {
-		case *ast.AssignStmt:
-			if len(a.Rhs) == 1 {
-				ta, _ = ast.Unparen(a.Rhs[0]).(*ast.TypeAssertExpr)
-			}
-		case *ast.ExprStmt:
-			ta, _ = ast.Unparen(a.X).(*ast.TypeAssertExpr)
-		}
-		if ta != nil && objOf(info, ta.X) == param {
-			ts = x
-		}
-		return true
-	})
-	errs := c11ExportedCoreErrors(r.P)
-	if len(errs) == 0 {
-		r.Anchor("exported error types of annotate/internal/core")
-		return
-	}
-	for _, nt := range errs {
-		name := nt.Obj().Name()
-		c := "maperr@" + g + " " + name
-		if ts == nil {
-			r.Unknown(c, fi.Decl.Pos(), "%s has no `switch t := %s.(type)`; accepted idiom: a type switch on the error parameter with one case per core error type", g, param.Name())
-			continue
-		}
-		var cc *ast.CaseClause
-		for _, s := range ts.Body.List {
-			cl := s.(*ast.CaseClause)
-			for _, te := range cl.List {
-				if types.Identical(info.TypeOf(te), types.NewPointer(nt)) {
-					cc = cl
-				}
-			}
-		}
-		if cc == nil {
-			r.Bad(c, ts.Pos(), "%s has no case for *core.%s: Compute's %s reaches the caller as an internal type, so errors.As / type assertions on the documented *annotate.%s fail", g, name, name, name)
-			continue
-		}
-		if len(cc.List) != 1 || len(cc.Body) == 0 {
-			r.Unknown(c, cc.Pos(), "case clause for *core.%s lists several types or is empty", name)
-			continue
-		}
-		tv := info.Implicits[cc]
-		ret, _ := cc.Body[len(cc.Body)-1].(*ast.ReturnStmt)
-		var cl *ast.CompositeLit
-		if ret != nil && len(ret.Results) == 1 {
-			if ue, ok := ast.Unparen(ret.Results[0]).(*ast.UnaryExpr); ok && ue.Op == token.AND {
-				cl, _ = ast.Unparen(ue.X).(*ast.CompositeLit)
-			}
-		}
-		if cl == nil || tv == nil {
-			r.Unknown(c, cc.Pos(), "case for *core.%s does not end in `return &T{...}` with a bound switch variable", name)
-			continue
-		}
-		if got := namedPath(info.TypeOf(cl)); got != c11AnnPath+"."+name {
-			r.Bad(c, ret.Pos(), "*core.%s is mapped to %s, not to the same-named documented type annotate.%s", name, got, name)
-			continue
-		}
-		srcST, _ := nt.Underlying().(*types.Struct)
-		_, dstST := structType(apk, name)
-		if srcST == nil || dstST == nil {
-			r.Unknown(c, ret.Pos(), "error types are not structs")
-			continue
-		}
-		srcField := func(n string) *types.Var {
-			for i := 0; i < srcST.NumFields(); i++ {
-				if srcST.Field(i).Name() == n {
-					return srcST.Field(i)
-				}
-			}
-			return nil
-		}
-		used := map[string]bool{}
-		var bad []string
-		for _, e := range cl.Elts {
-			kv, ok := e.(*ast.KeyValueExpr)
-			if !ok {
-				bad = append(bad, "unkeyed literal")
-				break
-			}
-			kf, _ := info.Uses[kv.Key.(*ast.Ident)].(*types.Var)
-			if kf == nil {
-				bad = append(bad, "unresolved key")
-				continue
-			}
-			from := c11DirectField(info, kv.Value, tv)
-			want := ""
-			if sf := srcField(kf.Name()); sf != nil {
-				want = sf.Name()
-			} else {
-				// corresponding field: the only source field of the same type that has no same-named destination
-				n := 0
-				for i := 0; i < srcST.NumFields(); i++ {
-					sf := srcST.Field(i)
-					same := false
-					for j := 0; j < dstST.NumFields(); j++ {
-						if dstST.Field(j).Name() == sf.Name() {
-							same = true
-						}
-					}
-					if !same && types.Identical(sf.Type(), kf.Type()) {
-						want = sf.Name()
-						n++
-					}
-				}
-				if n != 1 {
-					want = ""
-				}
-			}
-			if want == "" {
-				continue // destination-only field (not derivable from the core error)
-			}
-			if from != want {
-				bad = append(bad, "`"+src(r.P.Fset, kv)+"`: "+name+"."+kf.Name()+" must come from "+tv.Name()+"."+want)
-				continue
-			}
-			used[from] = true
-		}
-		for i := 0; i < srcST.NumFields(); i++ {
-			if !used[srcST.Field(i).Name()] {
-				bad = append(bad, "core."+name+"."+srcST.Field(i).Name()+" is not carried over")
-			}
-		}
-		if len(bad) > 0 {
-			r.Bad(c, ret.Pos(), "%s; the public error would not identify the child/time the internal error reports", strings.Join(bad, "; "))
-		} else {
-			var fs []string
-			for f := range used {
-				fs = append(fs, f)
-			}
-			sort.Strings(fs)
-			r.OK(c, ret.Pos(), "case *core.%s returns &annotate.%s with {%s} carried over from the corresponding fields", name, name, strings.Join(fs, ","))
-		}
-	}
-	// other errors pass through unchanged
-	c := "passthrough@" + g
-	list := fi.Decl.Body.List
-	okPass := false
-	if len(list) > 0 {
-		if ret, ok := list[len(list)-1].(*ast.ReturnStmt); ok && len(ret.Results) == 1 && objOf(info, ret.Results[0]) == param {
-			okPass = true
-		}
-	}
-	if ts != nil {
-		for _, s := range ts.Body.List {
-			if cl := s.(*ast.CaseClause); cl.List == nil {
-				okPass = false
-				if len(cl.Body) == 1 {
-					if ret, ok := cl.Body[0].(*ast.ReturnStmt); ok && len(ret.Results) == 1 && objOf(info, ret.Results[0]) == param {
-						okPass = true
-					}
-				}
-			}
-		}
-	}
-	r.Check(okPass, c, fi.Decl.Pos(), "errors that are not core error types (datasource errors, the untyped inconsistency error) are returned unchanged",
-		g+" does not end in `return "+param.Name()+"`: datasource errors would not propagate unchanged")
-}
-
-func c11A2Options(r *core.R) {
-	apk := r.P.Pkg("annotate")
-	if apk == nil {
-		return
-	}
-	info := apk.TypesInfo
-	found := map[string]bool{}
-	for _, fi := range allFuncs(apk) {
-		sig := fi.Obj.Type().(*types.Signature)
-		if sig.Recv() != nil || !fi.Obj.Exported() || sig.Results().Len() != 1 || namedPath(sig.Results().At(0).Type()) != c11AnnPath+".Option" {
-			continue
-		}
-		name := fi.Obj.Name()
-		found[name] = true
-		c := "option@" + name
-		var lit *ast.FuncLit
-		if len(fi.Decl.Body.List) == 1 {
-			if ret, ok := fi.Decl.Body.List[0].(*ast.ReturnStmt); ok && len(ret.Results) == 1 {
-				lit, _ = ast.Unparen(ret.Results[0]).(*ast.FuncLit)
-			}
-		}
-		if lit == nil || sig.Params().Len() != 1 || len(lit.Type.Params.List) != 1 || len(lit.Type.Params.List[0].Names) != 1 {
-			r.Unknown(c, fi.Decl.Pos(), "option constructor is not of the form `func %s(v T) Option { return func(o *core.Options) error { o.%s = v; return nil } }`", name, name)
-			continue
-		}
-		arg := sig.Params().At(0)
-		o := info.Defs[lit.Type.Params.List[0].Names[0]]
-		type set struct {
-			field string
-			rhs   ast.Expr
-			stmt  *ast.AssignStmt
-		}
-		var sets []set
-		ast.Inspect(lit.Body, func(n ast.Node) bool {
-			as, ok := n.(*ast.AssignStmt)
-			if !ok {
-				return true
-			}
-			for i, l := range as.Lhs {
-				if f := c11DirectField(info, l, o); f != "" && i < len(as.Rhs) {
-					sets = append(sets, set{f, as.Rhs[i], as})
-				}
-			}
-			return true
-		})
-		switch {
-		case len(sets) != 1:
-			r.Bad(c, fi.Decl.Pos(), "option %s assigns %d fields of core.Options; it must set exactly the field %s", name, len(sets), name)
-		case sets[0].field != name:
-			r.Bad(c, sets[0].stmt.Pos(), "`%s`: the public option %s sets core.Options.%s instead of the same-named field, so the documented %s behaviour is not switched by it", src(r.P.Fset, sets[0].stmt), name, sets[0].field, name)
-		case sets[0].stmt.Tok != token.ASSIGN || objOf(info, sets[0].rhs) != arg:
-			r.Bad(c, sets[0].stmt.Pos(), "`%s`: core.Options.%s must receive the option's argument %s", src(r.P.Fset, sets[0].stmt), name, arg.Name())
-		default:
-			r.OK(c, sets[0].stmt.Pos(), "sets core.Options.%s (and nothing else) from its argument", name)
-		}
-	}
-	for _, name := range []string{"ChildFilter", "IgnoreInconsistency", "IgnoreMissingChildren", "Threshold"} {
-		if !found[name] {
-			r.Bad("option@"+name, token.NoPos, "package annotate has no exported option constructor %s returning Option: the documented option cannot be set", name)
-		}
-	}
-}
-
-// ---------------------------------------------------------------------------
-// A3 copy agreement
-// ---------------------------------------------------------------------------
-
-func c11A3(r *core.R) {
-	c11A3SetChild(r)
-	c11A3Update(r)
-	c11A3From(r)
-}
-
-// c11ParentImpls lists the named types of package annotate whose pointer implements core.Parent.
-func c11ParentImpls(p *core.Program) []*types.Named {
-	apk, cpk := p.Pkg("annotate"), p.Pkg("annotate/internal/core")
-	if apk == nil || cpk == nil {
-		return nil
-	}
-	po := cpk.Types.Scope().Lookup("Parent")
-	if po == nil {
-		return nil
-	}
-	iface, ok := po.Type().Underlying().(*types.Interface)
-	if !ok {
-		return nil
-	}
-	var out []*types.Named
-	for _, nm := range apk.Types.Scope().Names() {
-		tn, ok := apk.Types.Scope().Lookup(nm).(*types.TypeName)
-		if !ok || tn.IsAlias() {
-			continue
-		}
-		nt, ok := tn.Type().(*types.Named)
-		if !ok {
-			continue
-		}
-		if _, isIface := nt.Underlying().(*types.Interface); isIface {
-			continue
-		}
-		if types.Implements(types.NewPointer(nt), iface) {
-			out = append(out, nt)
-		}
-	}
-	return out
-}
-
-func c11StructField(st *types.Struct, name string) *types.Var {
-	if st == nil {
-		return nil
-	}
-	for i := 0; i < st.NumFields(); i++ {
-		if st.Field(i).Name() == name {
-			return st.Field(i)
-		}
-	}
-	return nil
-}
-
-func c11RecvObj(info *types.Info, fd *ast.FuncDecl) types.Object {
-	if fd.Recv == nil || len(fd.Recv.List) != 1 || len(fd.Recv.List[0].Names) != 1 {
-		return nil
-	}
-	return info.Defs[fd.Recv.List[0].Names[0]]
-}
-
-func c11A3SetChild(r *core.R) {
-	apk := r.P.Pkg("annotate")
-	_, childST := structType(r.P.Pkg("annotate/shared"), "Child")
-	impls := c11ParentImpls(r.P)
-	if apk == nil || childST == nil || len(impls) == 0 {
-		r.Anchor("types of package annotate implementing core.Parent / shared.Child")
-		return
-	}
-	info := apk.TypesInfo
-	for _, nt := range impls {
-		fi := findFunc(apk, nt.Obj().Name()+".SetChild")
-		if fi == nil || fi.Decl.Body == nil {
-			r.Anchor(nt.Obj().Name() + ".SetChild")
-			continue
-		}
-		name := fi.Name()
-		sig := fi.Obj.Type().(*types.Signature)
-		recv := c11RecvObj(info, fi.Decl)
-		if sig.Params().Len() != 2 || recv == nil {
-			r.Anchor(name + " (idx int, child *shared.Child) with a named receiver")
-			continue
-		}
-		idx, child := sig.Params().At(0), sig.Params().At(1)
-		fl := c11NewFlow(r.P, info, fi.Decl.Body)
-		c := "copy@" + name
-		got := map[string]bool{}
-		var bad, unknown []string
-		var elemST *types.Struct
-		inspectNoLit(fi.Decl.Body, func(n ast.Node) bool {
-			as, ok := n.(*ast.AssignStmt)
-			if !ok {
-				return true
-			}
-			for i, l := range as.Lhs {
-				f := fieldOf(info, l)
-				if f == nil {
-					continue
-				}
-				sel := ast.Unparen(l).(*ast.SelectorExpr)
-				tp := namedPath(info.TypeOf(sel.X))
-				if tp != core.ModulePath+".WayNode" && tp != core.ModulePath+".Member" {
-					continue
-				}
-				if st, ok := info.TypeOf(sel.X).Underlying().(*types.Struct); ok {
-					elemST = st
-				} else if pt, ok := info.TypeOf(sel.X).Underlying().(*types.Pointer); ok {
-					elemST, _ = pt.Elem().Underlying().(*types.Struct)
-				}
-				ix, isIx := ast.Unparen(sel.X).(*ast.IndexExpr)
-				if !isIx || objOf(info, ix.Index) != idx || rootObj(info, ix.X) != recv {
-					unknown = append(unknown, "`"+src(r.P.Fset, as)+"`")
-					continue
-				}
-				from := ""
-				if as.Tok == token.ASSIGN && i < len(as.Rhs) {
-					from = c11DirectField(info, as.Rhs[i], child)
-				}
-				if from != f.Name() {
-					bad = append(bad, "`"+src(r.P.Fset, as)+"`: child field "+f.Name()+" must be copied from "+child.Name()+"."+f.Name())
-					continue
-				}
-				if got[f.Name()] {
-					bad = append(bad, "field "+f.Name()+" assigned twice")
-				}
-				got[f.Name()] = true
-			}
-			return true
-		})
-		var want, have []string
-		if elemST != nil {
-			for i := 0; i < elemST.NumFields(); i++ {
-				f := elemST.Field(i)
-				if cf := c11StructField(childST, f.Name()); cf != nil && types.Identical(cf.Type(), f.Type()) {
-					want = append(want, f.Name())
-				}
-			}
-		}
-		for k := range got {
-			have = append(have, k)
-		}
-		sort.Strings(want)
-		sort.Strings(have)
-		switch {
-		case len(unknown) > 0:
-			r.Unknown(c, fi.Decl.Pos(), "%s writes a child reference that is not of the form <receiver's member list>[%s].F; accepted idiom: `recv.X.List[%s].F = %s.F`", strings.Join(unknown, ", "), idx.Name(), idx.Name(), child.Name())
-		case len(bad) > 0:
-			r.Bad(c, fi.Decl.Pos(), "%s: the annotated reference would not carry the version/changeset/location of the child current at the parent's commit", strings.Join(bad, "; "))
-		case elemST == nil:
-			r.Bad(c, fi.Decl.Pos(), "%s assigns no field of an osm.WayNode / osm.Member: the child reference is never annotated", name)
-		case strings.Join(want, ",") != strings.Join(have, ","):
-			r.Bad(c, fi.Decl.Pos(), "assigns {%s} of the child reference; shared.Child carries {%s} for it", strings.Join(have, ","), strings.Join(want, ","))
-		default:
-			r.OK(c, fi.Decl.Pos(), "assigns exactly {%s} of <children>[%s], each from the same-named field of %s", strings.Join(have, ","), idx.Name(), child.Name())
-		}
-		// child is touched only when non-nil
-		c = "nilchild@" + name
-		nDeref := 0
-		var unguarded []string
-		inspectNoLit(fi.Decl.Body, func(n ast.Node) bool {
-			var x ast.Expr
-			switch e := n.(type) {
-			case *ast.SelectorExpr:
-				x = e.X
-			case *ast.StarExpr:
-				x = e.X
-			default:
-				return true
-			}
-			if objOf(info, x) != child {
-				return true
-			}
-			nDeref++
-			if c11NilFact(info, fl.facts(n.Pos()), c11IsObj(info, child)) != -1 {
-				unguarded = append(unguarded, "`"+src(r.P.Fset, n)+"` ("+r.P.Rel(n.Pos())+")")
-			}
-			return true
-		})
-		switch {
-		case len(unguarded) > 0:
-			r.Bad(c, fi.Decl.Pos(), "%s evaluated where %s may be nil: Compute passes a nil child when no visible version exists and IgnoreInconsistency is set, which must leave the reference untouched instead of panicking", strings.Join(unguarded, ", "), child.Name())
-		case nDeref == 0:
-			r.OKTrivial(c, fi.Decl.Pos(), "%s is never dereferenced", child.Name())
-		default:
-			r.OK(c, fi.Decl.Pos(), "all %d uses of %s.<field> are reachable only when %s != nil", nDeref, child.Name(), child.Name())
-		}
-	}
-}
-
-// c11IsCommitInfoStart reports whether e denotes the package-level variable osm.CommitInfoStart.
-func c11IsCommitInfoStart(info *types.Info, e ast.Expr) bool {
-	var id *ast.Ident
-	switch x := ast.Unparen(e).(type) {
-	case *ast.Ident:
-		id = x
-	case *ast.SelectorExpr:
-		id = x.Sel
-	default:
-		return false
-	}
-	v, ok := info.Uses[id].(*types.Var)
-	return ok && v.Pkg() != nil && v.Pkg().Path() == core.ModulePath && v.Name() == "CommitInfoStart" && v.Parent() == v.Pkg().Scope()
-}
-
-// c11StampRoles analyses the function that chooses an update's timestamp: returns the parameter indices
-// playing the roles (element timestamp, commit time).
-func c11StampRoles(r *core.R, spk *packages.Package, fn *types.Func) (tsIdx, commIdx int, ok bool) {
-	info := spk.TypesInfo
-	c := "stamp@" + fn.Name()
-	fi := findFunc(spk, fn.Name())
-	sig := fn.Type().(*types.Signature)
-	if fi == nil || fi.Decl.Body == nil || sig.Params().Len() != 2 || namedPath(sig.Params().At(0).Type()) != "time.Time" || namedPath(sig.Params().At(1).Type()) != "time.Time" {
-		r.Unknown(c, token.NoPos, "the function stamping updates is not a two-parameter (time.Time, time.Time) function of package shared")
-		return 0, 0, false
-	}
-	params := []types.Object{sig.Params().At(0), sig.Params().At(1)}
-	tsIdx = -1
-	inspectNoLit(fi.Decl.Body, func(n ast.Node) bool {
-		call, isCall := n.(*ast.CallExpr)
-		if !isCall || len(call.Args) != 1 || !c11IsCommitInfoStart(info, call.Args[0]) {
-			return true
-		}
-		for i, p := range params {
-			if c11MethodCallOn(info, call, "time.Time", "Before", p) != nil {
-				tsIdx = i
-			}
-		}
-		return true
-	})
-	if tsIdx < 0 {
-		r.Unknown(c, fi.Decl.Pos(), "%s has no `<param>.Before(osm.CommitInfoStart)` test: cannot tell which parameter is the element timestamp", fn.Name())
-		return 0, 0, false
-	}
-	commIdx = 1 - tsIdx
-	ts, comm := params[tsIdx], params[commIdx]
-	fl := c11NewFlow(r.P, info, fi.Decl.Body)
-	isBefore := func(e ast.Expr) bool {
-		call := c11MethodCallOn(info, e, "time.Time", "Before", ts)
-		return call != nil && len(call.Args) == 1 && c11IsCommitInfoStart(info, call.Args[0])
-	}
-	isZero := func(e ast.Expr) bool { return c11MethodCallOn(info, e, "time.Time", "IsZero", comm) != nil }
-	nTS, nComm := 0, 0
-	var bad []string
-	inspectNoLit(fi.Decl.Body, func(n ast.Node) bool {
-		ret, isRet := n.(*ast.ReturnStmt)
-		if !isRet || len(ret.Results) != 1 {
-			return true
-		}
-		switch objOf(info, ret.Results[0]) {
-		case ts:
-			nTS++
-		case comm:
-			nComm++
-			facts := fl.facts(ret.Pos())
-			if c11BoolFact(facts, isBefore) != -1 {
-				bad = append(bad, "`"+src(r.P.Fset, ret)+"` is reachable when "+ts.Name()+" is before CommitInfoStart (no commit information existed then)")
-			}
-			if c11BoolFact(facts, isZero) != -1 {
-				bad = append(bad, "`"+src(r.P.Fset, ret)+"` is reachable without `!"+comm.Name()+".IsZero()`: children without commit information would stamp their updates with the zero time")
-			}
-		default:
-			bad = append(bad, "`"+src(r.P.Fset, ret)+"` returns neither parameter")
-		}
-		return true
-	})
-	if nTS == 0 {
-		bad = append(bad, "never returns the element timestamp")
-	}
-	if nComm == 0 {
-		bad = append(bad, "never returns the commit time: updates must be stamped with their commit time when it is known")
-	}
-	if len(bad) > 0 {
-		r.Bad(c, fi.Decl.Pos(), "%s", strings.Join(bad, "; "))
-		return tsIdx, commIdx, true
-	}
-	r.OK(c, fi.Decl.Pos(), "returns parameter %s (commit time) only when !%s.Before(osm.CommitInfoStart) && !%s.IsZero(), otherwise parameter %s (element timestamp)", comm.Name(), ts.Name(), comm.Name(), ts.Name())
-	return tsIdx, commIdx, true
-}
-
-func c11A3Update(r *core.R) {
-	spk := r.P.Pkg("annotate/shared")
-	fi := findFunc(spk, "(*Child).Update")
-	if fi == nil || fi.Decl.Body == nil {
-		r.Anchor("shared.(*Child).Update")
-		return
-	}
-	info := spk.TypesInfo
-	name := fi.Name()
-	recv := c11RecvObj(info, fi.Decl)
-	var lit *ast.CompositeLit
-	inspectNoLit(fi.Decl.Body, func(n ast.Node) bool {
-		ret, ok := n.(*ast.ReturnStmt)
-		if !ok || len(ret.Results) != 1 {
-			return true
-		}
-		if cl, ok := ast.Unparen(ret.Results[0]).(*ast.CompositeLit); ok && namedPath(info.TypeOf(cl)) == core.ModulePath+".Update" {
-			lit = cl
-		}
-		return true
-	})
-	if lit == nil || recv == nil {
-		r.Unknown("update@"+name, fi.Decl.Pos(), "accepted idiom: `return osm.Update{Field: c.Field, ...}` with a named receiver")
-		return
-	}
-	got := map[string]ast.Expr{}
-	for _, e := range lit.Elts {
-		kv, ok := e.(*ast.KeyValueExpr)
-		if !ok {
-			r.Unknown("update@"+name, lit.Pos(), "unkeyed osm.Update literal")
-			return
-		}
-		got[kv.Key.(*ast.Ident).Name] = kv.Value
-	}
-	want := map[string]string{"Version": "Version", "ChangesetID": "ChangesetID", "Lat": "Lat", "Lon": "Lon", "Reverse": "ReverseOfPrevious"}
-	for _, k := range []string{"ChangesetID", "Lat", "Lon", "Reverse", "Version"} {
-		c := "update@" + name + " " + k
-		v, ok := got[k]
-		switch {
-		case !ok:
-			r.Bad(c, lit.Pos(), "Update() does not set %s: every update would carry the zero %s instead of the child version's", k, k)
-		case c11DirectField(info, v, recv) != want[k]:
-			r.Bad(c, v.Pos(), "`%s: %s`: Update.%s must be the child's %s; applying the update would give the reference a wrong %s", k, src(r.P.Fset, v), k, want[k], k)
-		default:
-			r.OK(c, v.Pos(), "Update.%s = %s.%s", k, recv.Name(), want[k])
-		}
-	}
-	c := "update@" + name + " Timestamp"
-	v, ok := got["Timestamp"]
-	if !ok {
-		r.Bad(c, lit.Pos(), "Update() does not set Timestamp: ApplyUpdatesUpTo(t) could not place the update in time")
-		return
-	}
-	call, _ := ast.Unparen(v).(*ast.CallExpr)
-	var fn *types.Func
-	if call != nil {
-		fn = callee(info, call)
-	}
-	if fn == nil || fn.Pkg() == nil || fn.Pkg().Path() != c11SharedPath || fn.Type().(*types.Signature).Recv() != nil || len(call.Args) != 2 {
-		r.Bad(c, v.Pos(), "`Timestamp: %s` is not computed by the (timestamp, committed) choice function: updates must be stamped with the child's commit time when it is known and with its timestamp otherwise", src(r.P.Fset, v))
-		return
-	}
-	tsIdx, commIdx, ok := c11StampRoles(r, spk, fn)
-	if !ok {
-		r.Unknown(c, v.Pos(), "roles of the parameters of %s not identified", fn.Name())
-		return
-	}
-	a, b := c11DirectField(info, call.Args[tsIdx], recv), c11DirectField(info, call.Args[commIdx], recv)
-	if a == "Timestamp" && b == "Committed" {
-		r.OK(c, v.Pos(), "Update.Timestamp = %s(%s) with %s.Timestamp in the timestamp role and %s.Committed in the commit-time role", fn.Name(), src(r.P.Fset, call.Args[0])+", "+src(r.P.Fset, call.Args[1]), recv.Name(), recv.Name())
-	} else {
-		r.Bad(c, v.Pos(), "`%s`: the timestamp role (parameter %d) must receive %s.Timestamp and the commit-time role (parameter %d) %s.Committed; otherwise updates are stamped with the edit time although the commit time is known (or vice versa)", src(r.P.Fset, call), tsIdx, recv.Name(), commIdx, recv.Name())
-	}
-}
-
-type c11Src struct {
-	kind    string // field | deref | method | param | other
-	name    string
-	pos     token.Pos
-	guarded bool
-	text    string
-}
-
-func c11A3From(r *core.R) {
-	spk := r.P.Pkg("annotate/shared")
-	childNT, childST := structType(spk, "Child")
-	if childST == nil {
-		r.Anchor("shared.Child")
-		return
-	}
-	info := spk.TypesInfo
-	for _, fname := range []string{"FromNode", "FromWay", "FromRelation"} {
-		fi := findFunc(spk, fname)
-		if fi == nil || fi.Decl.Body == nil {
-			r.Anchor("shared." + fname)
-			continue
-		}
-		sig := fi.Obj.Type().(*types.Signature)
-		if sig.Params().Len() != 1 {
-			r.Anchor("single parameter of shared." + fname)
-			continue
-		}
-		p := sig.Params().At(0)
-		pt, _ := p.Type().(*types.Pointer)
-		var srcNT *types.Named
-		if pt != nil {
-			srcNT, _ = pt.Elem().(*types.Named)
-		}
-		var srcST *types.Struct
-		if srcNT != nil {
-			srcST, _ = srcNT.Underlying().(*types.Struct)
-		}
-		if srcST == nil {
-			r.Anchor("parameter of shared." + fname + " pointing to an osm element struct")
-			continue
-		}
-		fl := c11NewFlow(r.P, info, fi.Decl.Body)
-		classify := func(e ast.Expr) c11Src {
-			e = ast.Unparen(e)
-			s := c11Src{kind: "other", pos: e.Pos(), text: src(r.P.Fset, e)}
-			if st, ok := e.(*ast.StarExpr); ok {
-				if f := c11DirectField(info, st.X, p); f != "" {
-					s.kind, s.name = "deref", f
-				}
-				return s
-			}
-			if f := c11DirectField(info, e, p); f != "" {
-				s.kind, s.name = "field", f
-				return s
-			}
-			if call, ok := e.(*ast.CallExpr); ok && len(call.Args) == 0 {
-				if sel, ok := ast.Unparen(call.Fun).(*ast.SelectorExpr); ok && objOf(info, sel.X) == p {
-					if fn := callee(info, call); fn != nil {
-						s.kind, s.name = "method", fn.Name()
-					}
-				}
-				return s
-			}
-			if objOf(info, e) == p {
-				s.kind = "param"
-			}
-			return s
-		}
-		set := map[string][]c11Src{}
-		inspectNoLit(fi.Decl.Body, func(n ast.Node) bool {
-			switch x := n.(type) {
-			case *ast.CompositeLit:
-				if namedPath(info.TypeOf(x)) != c11SharedPath+".Child" {
-					return true
-				}
-				for _, e := range x.Elts {
-					if kv, ok := e.(*ast.KeyValueExpr); ok {
-						if id, ok := kv.Key.(*ast.Ident); ok {
-							set[id.Name] = append(set[id.Name], classify(kv.Value))
-						}
-					} else {
-						set["?"] = append(set["?"], c11Src{kind: "other", pos: e.Pos(), text: "unkeyed element"})
-					}
-				}
-			case *ast.AssignStmt:
-				for i, l := range x.Lhs {
-					f := fieldOf(info, l)
-					if f == nil || i >= len(x.Rhs) || namedPath(info.TypeOf(ast.Unparen(l).(*ast.SelectorExpr).X)) != c11SharedPath+".Child" {
-						continue
-					}
-					s := classify(x.Rhs[i])
-					s.pos = x.Pos()
-					if s.kind == "deref" {
-						nm := s.name
-						s.guarded = c11NilFact(info, fl.facts(x.Pos()), func(e ast.Expr) bool { return c11DirectField(info, e, p) == nm }) == -1
-					}
-					set[f.Name()] = append(set[f.Name()], s)
-				}
-			}
-			return true
-		})
-		if len(set["?"]) > 0 {
-			r.Unknown("from@"+fname, fi.Decl.Pos(), "unkeyed shared.Child literal")
-			continue
-		}
-		ms := types.NewMethodSet(p.Type())
-		for i := 0; i < childST.NumFields(); i++ {
-			cf := childST.Field(i)
-			k := cf.Name()
-			sf := c11StructField(srcST, k)
-			wantKind, wantName := "", ""
-			switch {
-			case sf != nil && types.Identical(sf.Type(), cf.Type()):
-				wantKind, wantName = "field", k
-			case sf != nil && types.Identical(sf.Type(), types.NewPointer(cf.Type())):
-				wantKind, wantName = "deref", k
-			case types.Identical(cf.Type(), types.NewPointer(srcNT)):
-				wantKind = "param"
-			default:
-				if cnt, ok := cf.Type().(*types.Named); ok {
-					if m := ms.Lookup(cnt.Obj().Pkg(), cnt.Obj().Name()); m != nil {
-						if msig, ok := m.Type().(*types.Signature); ok && msig.Params().Len() == 0 && msig.Results().Len() == 1 && types.Identical(msig.Results().At(0).Type(), cf.Type()) {
-							wantKind, wantName = "method", cnt.Obj().Name()
-						}
-					}
-				}
-			}
-			srcs := set[k]
-			if wantKind == "" {
-				// no counterpart in the source element: must not be wired to one of its fields
-				for _, s := range srcs {
-					if s.kind == "field" || s.kind == "deref" {
-						r.Bad("from@"+fname+" "+k, s.pos, "Child.%s has no counterpart in %s but is set from `%s`", k, srcNT.Obj().Name(), s.text)
-					}
-				}
-				continue
-			}
-			c := "from@" + fname + " " + k
-			wantText := map[string]string{"field": p.Name() + "." + wantName, "deref": "*" + p.Name() + "." + wantName + " under `" + p.Name() + "." + wantName + " != nil`", "param": p.Name(), "method": p.Name() + "." + wantName + "()"}[wantKind]
-			switch {
-			case len(srcs) == 0:
-				r.Bad(c, fi.Decl.Pos(), "%s does not set Child.%s (must be %s): child versions built from %s histories lose their %s, which Compute / FindVisible / Update rely on", fname, k, wantText, srcNT.Obj().Name(), k)
-			case len(srcs) > 1:
-				r.Unknown(c, srcs[1].pos, "Child.%s is set %d times", k, len(srcs))
-			case srcs[0].kind != wantKind || srcs[0].name != wantName:
-				r.Bad(c, srcs[0].pos, "`%s: %s`: Child.%s must be %s (no cross-wiring)", k, srcs[0].text, k, wantText)
-			case wantKind == "deref" && !srcs[0].guarded:
-				r.Bad(c, srcs[0].pos, "`%s` is evaluated where %s.%s may be nil (elements without commit information)", srcs[0].text, p.Name(), k)
-			default:
-				r.OK(c, srcs[0].pos, "Child.%s = %s", k, wantText)
-			}
-		}
-		_ = childNT
-	}
-}
-
-// ---------------------------------------------------------------------------
-// A4 child lists are version-sorted before indexing
-// ---------------------------------------------------------------------------
-
-func c11A4(r *core.R) {
-	apk := r.P.Pkg("annotate")
-	if apk == nil {
-		r.Anchor("package annotate")
-		return
-	}
-	var convs []*FuncInfo
-	srcTypes := map[string]*types.Named{}
-	for _, fi := range allFuncs(apk) {
-		sig := fi.Obj.Type().(*types.Signature)
-		if sig.Recv() != nil || sig.Params().Len() != 1 || sig.Results().Len() != 1 || namedPath(sig.Results().At(0).Type()) != c11CorePath+".ChildList" {
-			continue
-		}
-		nt, ok := sig.Params().At(0).Type().(*types.Named)
-		if !ok || nt.Obj().Pkg() == nil || nt.Obj().Pkg().Path() != core.ModulePath {
-			continue
-		}
-		if _, ok := nt.Underlying().(*types.Slice); !ok {
-			continue
-		}
-		convs = append(convs, fi)
-		srcTypes[nt.Obj().Name()] = nt
-	}
-	if len(convs) == 0 {
-		r.Anchor("functions of package annotate converting osm.Nodes/Ways/Relations to core.ChildList")
-		return
-	}
-	conv := map[*types.Func]bool{}
-	for _, fi := range convs {
-		conv[fi.Obj] = true
-		c11A4Conv(r, apk, fi)
-	}
-	c11A4Gets(r, apk, conv)
-	var names []string
-	for n := range srcTypes {
-		names = append(names, n)
-	}
-	sort.Strings(names)
-	for _, n := range names {
-		c11A4Order(r, n)
-	}
-}
-
-// c11NonZero reports whether the facts imply v != 0.
-func c11NonZero(info *types.Info, facts []c11Atom, v types.Object) bool {
-	for _, a := range facts {
-		be, ok := ast.Unparen(a.e).(*ast.BinaryExpr)
-		if !ok {
-			continue
-		}
-		x, y, op := be.X, be.Y, be.Op
-		if c11IsConstInt(info, x, 0) {
-			x, y = y, x
-			switch op {
-			case token.LSS:
-				op = token.GTR
-			case token.GTR:
-				op = token.LSS
-			}
-		}
-		if objOf(info, x) != v || !c11IsConstInt(info, y, 0) {
-			continue
-		}
-		if (op == token.NEQ && a.val) || (op == token.EQL && !a.val) || (op == token.GTR && a.val) || (op == token.LEQ && !a.val) {
-			return true
-		}
-	}
-	return false
-}
-
-func c11IsTopLevel(body *ast.BlockStmt, s ast.Stmt) bool {
-	for _, x := range body.List {
-		if x == s {
-			return true
-		}
-	}
-	return false
-}
-
-func c11A4Conv(r *core.R, apk *packages.Package, fi *FuncInfo) {
-	info := apk.TypesInfo
-	name := fi.Name()
-	x := fi.Obj.Type().(*types.Signature).Params().At(0)
-	fl := c11NewFlow(r.P, info, fi.Decl.Body)
-	const consequence = "VersionIndex i would not be the position of the i-th lowest version, so Compute's window child[k] (k from VersionIndex+1 up to the next parent's version) would skip or repeat child versions"
-
-	var sortCall *ast.CallExpr
-	var rs *ast.RangeStmt
-	var vidx *ast.AssignStmt
-	inspectNoLit(fi.Decl.Body, func(n ast.Node) bool {
-		switch s := n.(type) {
-		case *ast.ExprStmt:
-			if call, ok := s.X.(*ast.CallExpr); ok {
-				if c11MethodCallOn(info, call, namedPath(x.Type()), "SortByIDVersion", x) != nil {
-					sortCall = call
-				}
-			}
-		case *ast.RangeStmt:
-			if objOf(info, s.X) != x {
-				return true
-			}
-			ast.Inspect(s.Body, func(m ast.Node) bool {
-				as, ok := m.(*ast.AssignStmt)
-				if !ok || len(as.Lhs) != 1 || len(as.Rhs) != 1 {
-					return true
-				}
-				if f := fieldOf(info, as.Lhs[0]); f != nil && f.Name() == "VersionIndex" && namedPath(info.TypeOf(ast.Unparen(as.Lhs[0]).(*ast.SelectorExpr).X)) == c11SharedPath+".Child" {
-					rs, vidx = s, as
-				}
-				return true
-			})
-		}
-		return true
-	})
-	c := "sorted@" + name
-	if rs == nil {
-		r.Bad(c, fi.Decl.Pos(), "no loop over %s assigns VersionIndex: %s", x.Name(), consequence)
-		r.Bad("index@"+name, fi.Decl.Pos(), "no loop over %s assigns VersionIndex", x.Name())
-		return
-	}
-	var loopHead *cfg.Block
-	for _, b := range fl.g.Blocks {
-		if b.Kind == cfg.KindRangeLoop && b.Stmt == rs {
-			loopHead = b
-		}
-	}
-	switch {
-	case sortCall == nil:
-		r.Bad(c, rs.Pos(), "%s is not sorted with SortByIDVersion before the loop that assigns VersionIndex: a datasource may return the history in any order; %s", x.Name(), consequence)
-	case loopHead == nil:
-		r.Unknown(c, rs.Pos(), "range loop not found in the control-flow graph")
-	default:
-		sb, _ := blockOf(fl.g, sortCall.Pos())
-		if sb == nil || !(fl.dom[loopHead][sb] && sb != loopHead) {
-			r.Bad(c, sortCall.Pos(), "`%s` does not dominate the loop that assigns VersionIndex (it runs after it, inside it, or only on some paths): %s", src(r.P.Fset, sortCall), consequence)
-		} else if fl.nAssign(x) != 0 {
-			r.Bad(c, sortCall.Pos(), "%s is reassigned in %s, so the sorted slice need not be the one the loop ranges over", x.Name(), name)
-		} else {
-			r.OK(c, sortCall.Pos(), "`%s` dominates the head of `for ... range %s`; %s is never reassigned", src(r.P.Fset, sortCall), x.Name(), x.Name())
-		}
-	}
-
-	// index agreement
-	c = "index@" + name
-	key, val := types.Object(nil), types.Object(nil)
-	if rs.Key != nil {
-		key = objOf(info, rs.Key)
-	}
-	if rs.Value != nil {
-		val = objOf(info, rs.Value)
-	}
-	cObj := objOf(info, ast.Unparen(vidx.Lhs[0]).(*ast.SelectorExpr).X)
-	var bad []string
-	if key == nil || val == nil || cObj == nil {
-		r.Unknown(c, rs.Pos(), "accepted idiom: `for i, e := range %s { c := shared.FromX(e); c.VersionIndex = i; list[i] = c }`", x.Name())
-		return
-	}
-	if objOf(info, vidx.Rhs[0]) != key || vidx.Tok != token.ASSIGN {
-		bad = append(bad, "`"+src(r.P.Fset, vidx)+"`: VersionIndex must be the loop index "+key.Name()+" (Compute indexes child[VersionIndex+1...])")
-	}
-	var defC, store *ast.AssignStmt
-	var listObj types.Object
-	skips := false
-	ast.Inspect(rs.Body, func(m ast.Node) bool {
-		switch s := m.(type) {
-		case *ast.FuncLit:
-			return false
-		case *ast.BranchStmt, *ast.ReturnStmt:
-			skips = true
-		case *ast.AssignStmt:
-			if len(s.Lhs) != 1 || len(s.Rhs) != 1 {
-				return true
-			}
-			if objOf(info, s.Lhs[0]) == cObj {
-				if call, ok := ast.Unparen(s.Rhs[0]).(*ast.CallExpr); ok && len(call.Args) == 1 && objOf(info, call.Args[0]) == val {
-					if fn := callee(info, call); fn != nil && fn.Pkg() != nil && fn.Pkg().Path() == c11SharedPath && fn.Exported() && strings.HasPrefix(fn.Name(), "From") {
-						defC = s
-					}
-				}
-			}
-			if ix, ok := ast.Unparen(s.Lhs[0]).(*ast.IndexExpr); ok && namedPath(info.TypeOf(ix.X)) == c11CorePath+".ChildList" && objOf(info, s.Rhs[0]) == cObj {
-				store = s
-				if objOf(info, ix.Index) != key {
-					bad = append(bad, "`"+src(r.P.Fset, s)+"`: the child with VersionIndex "+key.Name()+" must be stored at list index "+key.Name())
-				}
-				listObj = objOf(info, ix.X)
-			}
-		}
-		return true
-	})
-	if defC == nil || fl.nDirect(cObj) != 1 {
-		bad = append(bad, cObj.Name()+" is not (only) `shared.FromX("+val.Name()+")` of the loop element")
-	}
-	if store == nil || listObj == nil {
-		bad = append(bad, "the child is not stored into a core.ChildList at the loop index")
-	}
-	if skips {
-		bad = append(bad, "the loop body contains continue/break/return: some versions would be skipped and later list slots left nil")
-	}
-	if !c11IsTopLevel(rs.Body, vidx) || (store != nil && !c11IsTopLevel(rs.Body, store)) {
-		bad = append(bad, "VersionIndex assignment or list store is conditional")
-	}
-	if listObj != nil {
-		okMake, okRet := false, false
-		inspectNoLit(fi.Decl.Body, func(m ast.Node) bool {
-			switch s := m.(type) {
-			case *ast.AssignStmt:
-				if len(s.Lhs) == 1 && len(s.Rhs) == 1 && objOf(info, s.Lhs[0]) == listObj {
-					if call, ok := ast.Unparen(s.Rhs[0]).(*ast.CallExpr); ok && builtinName(info, call) == "make" && len(call.Args) == 2 {
-						if la := lenCallArg(info, call.Args[1]); la != nil && objOf(info, la) == x {
-							okMake = true
-						}
-					}
-				}
-			case *ast.ReturnStmt:
-				if len(s.Results) == 1 && objOf(info, s.Results[0]) == listObj {
-					if tb, _ := blockOf(fl.g, s.Pos()); tb != nil {
-						for _, b := range fl.g.Blocks {
-							if b.Kind == cfg.KindRangeDone && b.Stmt == rs && (b == tb || fl.dom[tb][b]) {
-								okRet = true
-							}
-						}
-					}
-				}
-			}
-			return true
-		})
-		if !okMake || fl.nAssign(listObj) != 2 { // make + the indexed store (root object)
-			bad = append(bad, listObj.Name()+" is not exactly `make(core.ChildList, len("+x.Name()+"))` filled by the loop")
-		}
-		if !okRet {
-			bad = append(bad, listObj.Name()+" is not returned after the loop")
-		}
-	}
-	if len(bad) > 0 {
-		r.Bad(c, vidx.Pos(), "%s; ChildList index and VersionIndex would disagree, which Compute relies on when it indexes child[k] from c.VersionIndex+1", strings.Join(bad, "; "))
-	} else {
-		r.OK(c, vidx.Pos(), "for %s, %s := range %s: %s := shared.From…(%s); %s.VersionIndex = %s; %s[%s] = %s unconditionally, no element skipped, %s returned after the loop", key.Name(), val.Name(), x.Name(), cObj.Name(), val.Name(), cObj.Name(), key.Name(), listObj.Name(), key.Name(), cObj.Name(), listObj.Name())
-	}
-
-	// reversal against the previous version (ways only)
-	elemIsWay := false
-	if sl, ok := x.Type().Underlying().(*types.Slice); ok && namedPath(sl.Elem()) == core.ModulePath+".Way" {
-		elemIsWay = true
-	}
-	if !elemIsWay {
-		return
-	}
-	c = "reverse@" + name
-	var rev *ast.AssignStmt
-	ast.Inspect(rs.Body, func(m ast.Node) bool {
-		if as, ok := m.(*ast.AssignStmt); ok && len(as.Lhs) == 1 && len(as.Rhs) == 1 && c11DirectField(info, as.Lhs[0], cObj) == "ReverseOfPrevious" {
-			rev = as
-		}
-		return true
-	})
-	if rev == nil {
-		r.Bad(c, rs.Pos(), "ReverseOfPrevious is never computed for way children: updates of way members lose their Reverse flag")
-		return
-	}
-	call, _ := ast.Unparen(rev.Rhs[0]).(*ast.CallExpr)
-	okArgs := false
-	if call != nil && isPkgFunc(callee(info, call), c11AnnPath, "IsReverse") && len(call.Args) == 2 {
-		isCur := func(e ast.Expr) bool { return objOf(info, e) == val }
-		isPrev := func(e ast.Expr) bool {
-			ix, ok := ast.Unparen(e).(*ast.IndexExpr)
-			if !ok || objOf(info, ix.X) != x {
-				return false
-			}
-			be, ok := ast.Unparen(ix.Index).(*ast.BinaryExpr)
-			return ok && be.Op == token.SUB && objOf(info, be.X) == key && c11IsConstInt(info, be.Y, 1)
-		}
-		okArgs = (isCur(call.Args[0]) && isPrev(call.Args[1])) || (isPrev(call.Args[0]) && isCur(call.Args[1]))
-	}
-	switch {
-	case !okArgs:
-		r.Bad(c, rev.Pos(), "`%s`: ReverseOfPrevious must be IsReverse(%s, %s[%s-1]), the comparison with the previous version in the sorted history", src(r.P.Fset, rev), val.Name(), x.Name(), key.Name())
-	case !c11NonZero(info, fl.facts(rev.Pos()), key):
-		r.Bad(c, rev.Pos(), "`%s` is reachable with %s == 0: %s[%s-1] indexes before the first version", src(r.P.Fset, rev), key.Name(), x.Name(), key.Name())
-	default:
-		r.OK(c, rev.Pos(), "ReverseOfPrevious = IsReverse(%s, %s[%s-1]) only when %s != 0", val.Name(), x.Name(), key.Name(), key.Name())
-	}
-}
-
-// c11A4Gets: every ChildList a Datasourcer.Get of package annotate returns comes from a sorting
-// conversion or directly from the user's AsChildren datasource.
-func c11A4Gets(r *core.R, apk *packages.Package, conv map[*types.Func]bool) {
-	info := apk.TypesInfo
-	cpk := r.P.Pkg("annotate/internal/core")
-	var iface *types.Interface
-	if cpk != nil {
-		if o := cpk.Types.Scope().Lookup("Datasourcer"); o != nil {
-			iface, _ = o.Type().Underlying().(*types.Interface)
-		}
-	}
-	if iface == nil {
-		r.Anchor("core.Datasourcer")
-		return
-	}
-	n := 0
-	for _, fi := range allFuncs(apk) {
-		sig := fi.Obj.Type().(*types.Signature)
-		if sig.Recv() == nil || fi.Obj.Name() != "Get" || !types.Implements(sig.Recv().Type(), iface) {
-			continue
-		}
-		n++
-		c := "get@" + fi.Name()
-		var via, user []string
-		var bad []string
-		inspectNoLit(fi.Decl.Body, func(m ast.Node) bool {
-			ret, ok := m.(*ast.ReturnStmt)
-			if !ok || len(ret.Results) == 0 {
-				return true
-			}
-			var e ast.Expr = ret.Results[0]
-			if c11IsNilIdent(info, e) {
-				return true
-			}
-			call, ok := ast.Unparen(e).(*ast.CallExpr)
-			if !ok {
-				bad = append(bad, "`"+src(r.P.Fset, ret)+"`")
-				return true
-			}
-			fn := callee(info, call)
-			switch {
-			case fn != nil && conv[fn]:
-				via = append(via, fn.Name())
-			case fn != nil && fn.Type().(*types.Signature).Recv() != nil && types.IsInterface(fn.Type().(*types.Signature).Recv().Type()):
-				user = append(user, fn.Name())
-			default:
-				bad = append(bad, "`"+src(r.P.Fset, ret)+"`")
-			}
-			return true
-		})
-		switch {
-		case len(bad) > 0:
-			r.Unknown(c, fi.Decl.Pos(), "%s returns a child list that is neither a sorting conversion nor the user's AsChildren result: %s", fi.Name(), strings.Join(bad, ", "))
-		case len(via) > 0:
-			r.OK(c, fi.Decl.Pos(), "every returned list comes from %s", strings.Join(via, ", "))
-		default:
-			r.OKTrivial(c, fi.Decl.Pos(), "returns the user datasource's %s unchanged (trusted: version-sorted, VersionIndex == position)", strings.Join(user, ", "))
-		}
-	}
-	if n == 0 {
-		r.Anchor("Get methods of package annotate implementing core.Datasourcer")
-	}
-}
-
-// c11A4Order: the comparator behind osm.<T>.SortByIDVersion orders equal ids by ascending Version.
-func c11A4Order(r *core.R, tname string) {
-	pk := r.P.Pkg("")
-	info := pk.TypesInfo
-	c := "order@" + tname + ".SortByIDVersion"
-	sfi := findFunc(pk, tname+".SortByIDVersion")
-	if sfi == nil {
-		r.Anchor("osm." + tname + ".SortByIDVersion")
-		return
-	}
-	ad := sortAdapter(pk, sfi)
-	if ad == nil {
-		r.Anchor("sort.Sort(adapter) in osm." + tname + ".SortByIDVersion")
-		return
-	}
-	lf := findFunc(pk, ad.Obj().Name()+".Less")
-	if lf == nil || lf.Decl.Body == nil {
-		r.Anchor(ad.Obj().Name() + ".Less")
-		return
-	}
-	recv := c11RecvObj(info, lf.Decl)
-	sig := lf.Obj.Type().(*types.Signature)
-	if recv == nil || sig.Params().Len() != 2 {
-		r.Unknown(c, lf.Decl.Pos(), "Less without named receiver / two parameters")
-		return
-	}
-	pi, pj := sig.Params().At(0), sig.Params().At(1)
-	side := func(e ast.Expr) (string, string) {
-		f := fieldOf(info, e)
-		if f == nil {
-			return "", ""
-		}
-		ix, ok := ast.Unparen(ast.Unparen(e).(*ast.SelectorExpr).X).(*ast.IndexExpr)
-		if !ok || objOf(info, ix.X) != recv {
-			return "", ""
-		}
-		switch objOf(info, ix.Index) {
-		case pi:
-			return "i", f.Name()
-		case pj:
-			return "j", f.Name()
-		}
-		return "", ""
-	}
-	// less: field, strict ascending (i before j)
-	less := func(e ast.Expr) (string, bool) {
-		be, ok := ast.Unparen(e).(*ast.BinaryExpr)
-		if !ok {
-			return "", false
-		}
-		a, b := be.X, be.Y
-		switch be.Op {
-		case token.LSS:
-		case token.GTR:
-			a, b = b, a
-		default:
-			sa, fa := side(be.X)
-			_, fb := side(be.Y)
-			if sa != "" && fa == fb {
-				return fa, false
-			}
-			return "", false
-		}
-		sa, fa := side(a)
-		sb, fb := side(b)
-		if fa == "" || fa != fb || sa == "" || sb == "" || sa == sb {
-			return "", false
-		}
-		return fa, sa == "i"
-	}
-	list := lf.Decl.Body.List
-	// form A: if a.ID == b.ID { return a.Version < b.Version }; return a.ID < b.ID
-	if len(list) == 2 {
-		ifs, ok1 := list[0].(*ast.IfStmt)
-		fin, ok2 := list[1].(*ast.ReturnStmt)
-		if ok1 && ok2 && ifs.Init == nil && ifs.Else == nil && len(ifs.Body.List) == 1 && len(fin.Results) == 1 {
-			if inner, ok := ifs.Body.List[0].(*ast.ReturnStmt); ok && len(inner.Results) == 1 {
-				if be, ok := ast.Unparen(ifs.Cond).(*ast.BinaryExpr); ok && be.Op == token.EQL {
-					sa, fa := side(be.X)
-					sb, fb := side(be.Y)
-					if fa == "ID" && fb == "ID" && sa != sb && sa != "" && sb != "" {
-						vf, vasc := less(inner.Results[0])
-						idf, idasc := less(fin.Results[0])
-						switch {
-						case vf != "Version" || !vasc:
-							r.Bad(c, inner.Pos(), "`%s`: versions of one element must be ordered by strictly ascending Version (i-side < j-side); otherwise VersionIndex does not count versions from lowest to highest", src(r.P.Fset, inner))
-						case idf != "ID" || !idasc:
-							r.Bad(c, fin.Pos(), "`%s`: different ids must be ordered by ascending ID", src(r.P.Fset, fin))
-						default:
-							r.OK(c, lf.Decl.Pos(), "%s.Less: equal ID -> strictly ascending Version; otherwise ascending ID", ad.Obj().Name())
-						}
-						return
-					}
-				}
-			}
-		}
-	}
-	// form B: lexicographic chain
-	if chain, perr := parseLessChain(info, lf.Decl); perr == "" && len(chain) == 2 {
-		okc := chain[0].field == "ID" && chain[1].field == "Version"
-		for _, st := range chain {
-			okc = okc && st.strict && st.asc && st.tieOK
-		}
-		if okc {
-			r.OK(c, lf.Decl.Pos(), "%s.Less: lexicographic chain ID, Version (strict, ascending)", ad.Obj().Name())
-		} else {
-			r.Bad(c, lf.Decl.Pos(), "%s.Less does not order by ascending ID then strictly ascending Version", ad.Obj().Name())
-		}
-		return
-	}
-	r.Unknown(c, lf.Decl.Pos(), "comparator shape not recognised; accepted: `if a.ID == b.ID { return a.Version < b.Version }; return a.ID < b.ID` or the chain form `if a.ID != b.ID { return a.ID < b.ID }; return a.Version < b.Version`")
-}
-
-// ---------------------------------------------------------------------------
-// A5 update window and per-parent grouping
-// ---------------------------------------------------------------------------
-
-// c11Locs holds what the location-map builder (the callee of Compute's outer range) establishes:
-// which field of the location struct is the parent index and which the position within the parent.
-type c11Locs struct {
-	parentField, indexField *types.Var
-}
-
-// c11A5MapLocs analyses the function `func(parents []Parent, filter func(FeatureID) bool) map[FeatureID]locs`.
-func c11A5MapLocs(r *core.R, cpk *packages.Package, fn *types.Func) *c11Locs {
-	info := cpk.TypesInfo
-	fi := findFunc(cpk, fn.Name())
-	c := "loc@" + fn.Name()
-	if fi == nil || fi.Decl.Body == nil {
-		r.Anchor("declaration of core." + fn.Name())
-		return nil
-	}
-	sig := fn.Type().(*types.Signature)
-	var ps, filt types.Object
-	for i := 0; i < sig.Params().Len(); i++ {
-		p := sig.Params().At(i)
-		if sl, ok := p.Type().(*types.Slice); ok && namedPath(sl.Elem()) == c11CorePath+".Parent" {
-			ps = p
-		}
-		if _, ok := p.Type().Underlying().(*types.Signature); ok {
-			filt = p
-		}
-	}
-	var outer, inner *ast.RangeStmt
-	var iObj, pObj, jObj, fidObj, refsObj, annObj types.Object
-	inspectNoLit(fi.Decl.Body, func(n ast.Node) bool {
-		switch s := n.(type) {
-		case *ast.RangeStmt:
-			if ps != nil && objOf(info, s.X) == ps && s.Key != nil && s.Value != nil {
-				outer = s
-				iObj, pObj = objOf(info, s.Key), objOf(info, s.Value)
-			}
-			if refsObj != nil && objOf(info, s.X) == refsObj && s.Key != nil && s.Value != nil {
-				inner = s
-				jObj, fidObj = objOf(info, s.Key), objOf(info, s.Value)
-			}
-		case *ast.AssignStmt:
-			if len(s.Lhs) == 2 && len(s.Rhs) == 1 && pObj != nil && c11MethodCallOn(info, s.Rhs[0], c11CorePath+".Parent", "Refs", pObj) != nil {
-				refsObj, annObj = objOf(info, s.Lhs[0]), objOf(info, s.Lhs[1])
-			}
-		}
-		return true
-	})
-	if outer == nil || inner == nil || iObj == nil || jObj == nil || fidObj == nil {
-		r.Unknown(c, fi.Decl.Pos(), "accepted idiom: `for i, p := range parents { refs, annotated := p.Refs(); for j, fid := range refs { ...; m[fid] = append(m[fid], loc{<parent>: i, <index>: j}) } }`")
-		return nil
-	}
-	res := &c11Locs{}
-	var lit *ast.CompositeLit
-	var store *ast.AssignStmt
-	ast.Inspect(inner.Body, func(n ast.Node) bool {
-		as, ok := n.(*ast.AssignStmt)
-		if !ok {
-			return true
-		}
-		call := c11AppendTo(info, as)
-		if call == nil || len(call.Args) != 2 {
-			return true
-		}
-		cl, ok := ast.Unparen(call.Args[1]).(*ast.CompositeLit)
-		if !ok {
-			return true
-		}
-		lit, store = cl, as
-		return true
-	})
-	if lit == nil {
-		r.Unknown(c, inner.Pos(), "no `m[fid] = append(m[fid], loc{...})` in the loop over the parent's refs")
-		return nil
-	}
-	var bad []string
-	if ix, ok := ast.Unparen(store.Lhs[0]).(*ast.IndexExpr); !ok || objOf(info, ix.Index) != fidObj {
-		bad = append(bad, "the location is not stored under the ref's feature id "+fidObj.Name())
-	}
-	for _, e := range lit.Elts {
-		kv, ok := e.(*ast.KeyValueExpr)
-		if !ok {
-			bad = append(bad, "unkeyed location literal")
-			continue
-		}
-		kf, _ := info.Uses[kv.Key.(*ast.Ident)].(*types.Var)
-		switch objOf(info, kv.Value) {
-		case iObj:
-			res.parentField = kf
-		case jObj:
-			res.indexField = kf
-		}
-	}
-	if res.parentField == nil || res.indexField == nil || res.parentField == res.indexField {
-		bad = append(bad, "the location literal `"+src(r.P.Fset, lit)+"` does not record both the parent index "+iObj.Name()+" and the ref position "+jObj.Name())
-	}
-	if len(bad) > 0 {
-		r.Bad(c, lit.Pos(), "%s", strings.Join(bad, "; "))
-	} else {
-		r.OK(c, lit.Pos(), "location{%s: %s (index into parents), %s: %s (position in p.Refs())} stored under %s", res.parentField.Name(), iObj.Name(), res.indexField.Name(), jObj.Name(), fidObj.Name())
-	}
-
-	// skipping a child: only when already annotated and rejected by the filter
-	c = "filter@" + fn.Name()
-	fl := c11NewFlow(r.P, info, fi.Decl.Body)
-	par := parentsOf(r.P, fi)
-	nSkip := 0
-	var fbad []string
-	ast.Inspect(inner.Body, func(n ast.Node) bool {
-		var pos token.Pos
-		var st ast.Stmt
-		switch s := n.(type) {
-		case *ast.BranchStmt:
-			pos, st = s.Pos(), s
-		case *ast.ReturnStmt:
-			pos, st = s.Pos(), s
-		default:
-			return true
-		}
-		nSkip++
-		facts := fl.factsAtStmt(par, st)
-		isAnn := func(e ast.Expr) bool {
-			ix, ok := ast.Unparen(e).(*ast.IndexExpr)
-			return ok && annObj != nil && objOf(info, ix.X) == annObj && objOf(info, ix.Index) == jObj
-		}
-		isFilt := func(e ast.Expr) bool {
-			call, ok := ast.Unparen(e).(*ast.CallExpr)
-			return ok && filt != nil && objOf(info, call.Fun) == filt && len(call.Args) == 1 && objOf(info, call.Args[0]) == fidObj
-		}
-		if c11BoolFact(facts, isAnn) != +1 {
-			fbad = append(fbad, "the skip at "+r.P.Rel(pos)+" is reachable for a child that is not yet annotated (no `annotated["+jObj.Name()+"]` on its path): unannotated children must always be annotated, whatever the ChildFilter says")
-		} else if c11BoolFact(facts, isFilt) != -1 {
-			fbad = append(fbad, "the skip at "+r.P.Rel(pos)+" does not depend on the filter rejecting "+fidObj.Name())
-		}
-		return true
-	})
-	switch {
-	case len(fbad) > 0:
-		r.Bad(c, inner.Pos(), "%s", strings.Join(fbad, "; "))
-	case nSkip == 0:
-		r.OKTrivial(c, inner.Pos(), "no child is ever skipped")
-	default:
-		r.OK(c, inner.Pos(), "a ref is skipped only when annotated[%s] && !filter(%s) (%d skip site(s))", jObj.Name(), fidObj.Name(), nSkip)
-	}
-	if res.parentField == nil || res.indexField == nil {
-		return nil
-	}
-	return res
-}
-
-// c11FieldOfIndexed recognises `<R>[<idx>].<field>`; returns the index expression.
-func c11FieldOfIndexed(info *types.Info, e ast.Expr, recv types.Object, field *types.Var) ast.Expr {
-	f := fieldOf(info, e)
-	if f == nil || f != field {
-		return nil
-	}
-	ix, ok := ast.Unparen(ast.Unparen(e).(*ast.SelectorExpr).X).(*ast.IndexExpr)
-	if !ok || objOf(info, ix.X) != recv {
-		return nil
-	}
-	return ix.Index
-}
-
-// c11A5Group checks the grouping method (callee of Compute's per-parent range): it yields maximal
-// runs of equal parent index, in order, covering the receiver.
-func c11A5Group(r *core.R, cpk *packages.Package, fn *types.Func, locs *c11Locs) {
-	info := cpk.TypesInfo
-	c := "group@" + funcName(fn)
-	fi := findFunc(cpk, funcName(fn))
-	if fi == nil || fi.Decl.Body == nil {
-		r.Anchor("declaration of core." + funcName(fn))
-		return
-	}
-	recv := c11RecvObj(info, fi.Decl)
-	if recv == nil {
-		r.Unknown(c, fi.Decl.Pos(), "unnamed receiver")
-		return
-	}
-	const idiom = "accepted idiom: `for len(L) > 0 { p := L[0].Parent; end := 0; for end < len(L) && L[end].Parent == p { end++ }; result = append(result, L[:end]); L = L[end:] }; return result`"
-	fl := c11NewFlow(r.P, info, fi.Decl.Body)
-	var inner *ast.ForStmt
-	var endObj, pv types.Object
-	inspectNoLit(fi.Decl.Body, func(n ast.Node) bool {
-		fs, ok := n.(*ast.ForStmt)
-		if !ok || fs.Cond == nil {
-			return true
-		}
-		var e, p types.Object
-		lt := false
-		for _, a := range c11Decompose(fs.Cond, true, fs.Cond) {
-			be, ok := ast.Unparen(a.e).(*ast.BinaryExpr)
-			if !ok || !a.val {
-				continue
-			}
-			switch be.Op {
-			case token.EQL:
-				x, y := be.X, be.Y
-				if c11FieldOfIndexed(info, x, recv, locs.parentField) == nil {
-					x, y = y, x
-				}
-				if ix := c11FieldOfIndexed(info, x, recv, locs.parentField); ix != nil {
-					e, p = objOf(info, ix), objOf(info, y)
-				}
-			case token.LSS:
-				if la := lenCallArg(info, be.Y); la != nil && objOf(info, la) == recv {
-					if o := objOf(info, be.X); o != nil {
-						lt = true
-						if e == nil {
-							e = o
-						} else if e != o {
-							lt = false
-						}
-					}
-				}
-			}
-		}
-		if e != nil && p != nil && lt {
-			inner, endObj, pv = fs, e, p
-		}
-		return true
-	})
-	if inner == nil {
-		r.Unknown(c, fi.Decl.Pos(), "no loop advancing `end` while `end < len(%s) && %s[end].%s == p`: runs of equal parent index are not delimited; %s", recv.Name(), recv.Name(), locs.parentField.Name(), idiom)
-		return
-	}
-	var miss []string
-	// p := L[0].Parent ; end := 0 ; end++ only
-	okP, okEnd0, okInc := false, false, false
-	var app, adv *ast.AssignStmt
-	var resObj types.Object
-	inspectNoLit(fi.Decl.Body, func(n ast.Node) bool {
-		switch s := n.(type) {
-		case *ast.AssignStmt:
-			if len(s.Lhs) != 1 || len(s.Rhs) != 1 {
-				return true
-			}
-			switch objOf(info, s.Lhs[0]) {
-			case pv:
-				if ix := c11FieldOfIndexed(info, s.Rhs[0], recv, locs.parentField); ix != nil && c11IsConstInt(info, ix, 0) {
-					okP = true
-				}
-			case endObj:
-				if c11IsConstInt(info, s.Rhs[0], 0) {
-					okEnd0 = true
-				}
-			case recv:
-				if se, ok := ast.Unparen(s.Rhs[0]).(*ast.SliceExpr); ok && objOf(info, se.X) == recv && se.High == nil && se.Low != nil && objOf(info, se.Low) == endObj {
-					adv = s
-				}
-			}
-			if call := c11AppendTo(info, s); call != nil && len(call.Args) == 2 {
-				if se, ok := ast.Unparen(call.Args[1]).(*ast.SliceExpr); ok && objOf(info, se.X) == recv && se.Low == nil && se.High != nil && objOf(info, se.High) == endObj {
-					app = s
-					resObj = objOf(info, s.Lhs[0])
-				}
-			}
-		case *ast.IncDecStmt:
-			if objOf(info, s.X) == endObj && s.Tok == token.INC && inner.Pos() <= s.Pos() && s.End() <= inner.End() {
-				okInc = true
-			}
-		}
-		return true
-	})
-	if !okP || fl.nAssign(pv) != 1 {
-		miss = append(miss, pv.Name()+" is not (only) `"+recv.Name()+"[0]."+locs.parentField.Name()+"`")
-	}
-	if !okEnd0 || !okInc || fl.nAssign(endObj) != 2 {
-		miss = append(miss, endObj.Name()+" is not `:= 0` advanced only by `++` in the run loop")
-	}
-	if app == nil {
-		miss = append(miss, "no `result = append(result, "+recv.Name()+"[:"+endObj.Name()+"])`")
-	}
-	if adv == nil || fl.nAssign(recv) != 1 {
-		miss = append(miss, "no single `"+recv.Name()+" = "+recv.Name()+"["+endObj.Name()+":]`")
-	}
-	if app != nil && adv != nil {
-		var done *cfg.Block
-		for _, b := range fl.g.Blocks {
-			if b.Kind == cfg.KindForDone && b.Stmt == inner {
-				done = b
-			}
-		}
-		ab, _ := blockOf(fl.g, app.Pos())
-		vb, _ := blockOf(fl.g, adv.Pos())
-		if done == nil || ab == nil || vb == nil || !(ab == done || fl.dom[ab][done]) || !(vb == done || fl.dom[vb][done]) || !posDominates(fl.g, fl.dom, app.Pos(), adv.Pos()) {
-			miss = append(miss, "the run is not appended and then cut off after the run loop has finished")
-		}
-		outerOK := false
-		for p := parentsOf(r.P, fi)[ast.Node(inner)]; p != nil; p = parentsOf(r.P, fi)[p] {
-			if fs, ok := p.(*ast.ForStmt); ok && fs.Cond != nil && fs.Init == nil && fs.Post == nil {
-				if be, ok := ast.Unparen(fs.Cond).(*ast.BinaryExpr); ok {
-					la, other, op := lenCallArg(info, be.X), be.Y, be.Op
-					if la == nil {
-						la, other = lenCallArg(info, be.Y), be.X
-						if op == token.LSS {
-							op = token.GTR
-						}
-					}
-					if la != nil && objOf(info, la) == recv && c11IsConstInt(info, other, 0) && (op == token.GTR || op == token.NEQ) {
-						outerOK = true
-					}
-				}
-			}
-		}
-		if !outerOK {
-			miss = append(miss, "no enclosing `for len("+recv.Name()+") > 0`")
-		}
-		okRet := false
-		inspectNoLit(fi.Decl.Body, func(n ast.Node) bool {
-			if ret, ok := n.(*ast.ReturnStmt); ok && len(ret.Results) == 1 && objOf(info, ret.Results[0]) == resObj {
-				okRet = true
-			}
-			return true
-		})
-		if !okRet {
-			miss = append(miss, "the list of runs is not returned")
-		}
-	}
-	if len(miss) > 0 {
-		r.Unknown(c, inner.Pos(), "%s; cannot show that every group has one parent index (Compute uses group[0].%s for the whole group); %s", strings.Join(miss, "; "), locs.parentField.Name(), idiom)
-		return
-	}
-	r.OK(c, inner.Pos(), "each group is %s[:%s] with %s advanced while %s[%s].%s == %s[0].%s, then cut off: groups are runs of one parent index, in order, covering the list", recv.Name(), endObj.Name(), endObj.Name(), recv.Name(), endObj.Name(), locs.parentField.Name(), recv.Name(), locs.parentField.Name())
-}
-
-// c11FieldPath returns the field objects selected from root to e (`w.Way.Nodes` -> [Way Nodes]) and the root object.
-func c11FieldPath(info *types.Info, e ast.Expr) ([]*types.Var, types.Object) {
-	var path []*types.Var
-	for {
-		switch x := ast.Unparen(e).(type) {
-		case *ast.SelectorExpr:
-			f := fieldOf(info, x)
-			if f == nil {
-				return nil, nil
-			}
-			path = append([]*types.Var{f}, path...)
-			e = x.X
-		case *ast.Ident:
-			return path, objOf(info, x)
-		default:
-			return nil, nil
-		}
-	}
-}
-
-// c11A5Refs: Refs() and SetChild of every Parent implementation index the same member list.
-func c11A5Refs(r *core.R) {
-	apk := r.P.Pkg("annotate")
-	impls := c11ParentImpls(r.P)
-	if apk == nil || len(impls) == 0 {
-		r.Anchor("types of package annotate implementing core.Parent")
-		return
-	}
-	info := apk.TypesInfo
-	for _, nt := range impls {
-		tn := nt.Obj().Name()
-		rf, sf := findFunc(apk, tn+".Refs"), findFunc(apk, tn+".SetChild")
-		if rf == nil || sf == nil || rf.Decl.Body == nil || sf.Decl.Body == nil {
-			r.Anchor(tn + ".Refs / SetChild")
-			continue
-		}
-		c := "refs@" + rf.Name()
-		// container SetChild writes into
-		var setPath []*types.Var
-		sRecv := c11RecvObj(info, sf.Decl)
-		inspectNoLit(sf.Decl.Body, func(n ast.Node) bool {
-			as, ok := n.(*ast.AssignStmt)
-			if !ok {
-				return true
-			}
-			for _, l := range as.Lhs {
-				if f := fieldOf(info, l); f != nil {
-					if ix, ok := ast.Unparen(ast.Unparen(l).(*ast.SelectorExpr).X).(*ast.IndexExpr); ok {
-						if p, root := c11FieldPath(info, ix.X); p != nil && root == sRecv && setPath == nil {
-							setPath = p
-						}
-					}
-				}
-			}
-			return true
-		})
-		rRecv := c11RecvObj(info, rf.Decl)
-		var ids, ann types.Object
-		inspectNoLit(rf.Decl.Body, func(n ast.Node) bool {
-			if ret, ok := n.(*ast.ReturnStmt); ok && len(ret.Results) == 2 {
-				ids, ann = objOf(info, ret.Results[0]), objOf(info, ret.Results[1])
-			}
-			return true
-		})
-		if setPath == nil || ids == nil || ann == nil || rRecv == nil {
-			r.Unknown(c, rf.Decl.Pos(), "accepted idiom: Refs fills `ids[i] = <members>[i].FeatureID()`, `annotated[i] = <members>[i].Version != 0` and returns them; SetChild writes `<members>[idx].F`")
-			continue
-		}
-		samePath := func(e ast.Expr) bool {
-			p, root := c11FieldPath(info, e)
-			if root != rRecv || len(p) != len(setPath) {
-				return false
-			}
-			for i := range p {
-				if p[i] != setPath[i] {
-					return false
-				}
-			}
-			return true
-		}
-		okIDs, okAnn, okRange, okLen := false, false, false, 0
-		inspectNoLit(rf.Decl.Body, func(n ast.Node) bool {
-			switch s := n.(type) {
-			case *ast.RangeStmt:
-				if samePath(s.X) && s.Key != nil {
-					key := objOf(info, s.Key)
-					okRange = true
-					ast.Inspect(s.Body, func(m ast.Node) bool {
-						as, ok := m.(*ast.AssignStmt)
-						if !ok || len(as.Lhs) != 1 || len(as.Rhs) != 1 {
-							return true
-						}
-						lx, ok := ast.Unparen(as.Lhs[0]).(*ast.IndexExpr)
-						if !ok || objOf(info, lx.Index) != key {
-							return true
-						}
-						elem := func(e ast.Expr) bool {
-							ix, ok := ast.Unparen(e).(*ast.IndexExpr)
-							return ok && samePath(ix.X) && objOf(info, ix.Index) == key
-						}
-						switch objOf(info, lx.X) {
-						case ids:
-							if call, ok := ast.Unparen(as.Rhs[0]).(*ast.CallExpr); ok && len(call.Args) == 0 {
-								if sel, ok := ast.Unparen(call.Fun).(*ast.SelectorExpr); ok && elem(sel.X) {
-									if fn := callee(info, call); fn != nil && fn.Name() == "FeatureID" {
-										okIDs = true
-									}
-								}
-							}
-						case ann:
-							if be, ok := ast.Unparen(as.Rhs[0]).(*ast.BinaryExpr); ok && be.Op == token.NEQ && c11IsConstInt(info, be.Y, 0) {
-								if f := fieldOf(info, be.X); f != nil && f.Name() == "Version" && elem(ast.Unparen(be.X).(*ast.SelectorExpr).X) {
-									okAnn = true
-								}
-							}
-						}
-						return true
-					})
-				}
-			case *ast.AssignStmt:
-				if len(s.Lhs) == 1 && len(s.Rhs) == 1 && (objOf(info, s.Lhs[0]) == ids || objOf(info, s.Lhs[0]) == ann) {
-					if call, ok := ast.Unparen(s.Rhs[0]).(*ast.CallExpr); ok && builtinName(info, call) == "make" && len(call.Args) == 2 {
-						if la := lenCallArg(info, call.Args[1]); la != nil && samePath(la) {
-							okLen++
-						}
-					}
-				}
-			}
-			return true
-		})
-		var pn []string
-		for _, f := range setPath {
-			pn = append(pn, f.Name())
-		}
-		path := strings.Join(pn, ".")
-		switch {
-		case !okRange || okLen != 2:
-			r.Bad(c, rf.Decl.Pos(), "Refs does not build its two result slices with len(<receiver>.%s) and fill them in a loop over <receiver>.%s, the list SetChild indexes: positions reported to Compute and positions annotated would differ", path, path)
-		case !okIDs:
-			r.Bad(c, rf.Decl.Pos(), "ids[i] is not <receiver>.%s[i].FeatureID(): the history fetched for position i would belong to another child than the one SetChild(i, …) annotates", path)
-		case !okAnn:
-			r.Bad(c, rf.Decl.Pos(), "annotated[i] is not `<receiver>.%s[i].Version != 0`: the ChildFilter could suppress the annotation of a child that has none yet", path)
-		default:
-			r.OK(c, rf.Decl.Pos(), "ids[i] = %s[i].FeatureID(), annotated[i] = %s[i].Version != 0 over the whole list; SetChild writes %s[idx]: same list, same positions", path, path, path)
-		}
-	}
-}
-
-func c11A5(r *core.R) {
-	c11A5Refs(r)
-	cx := c11Ctx(r)
-	if cx == nil {
-		return
-	}
-	info := cx.info
-	body := cx.fi.Decl.Body
-	pvars := cx.parentVars()
-
-	// ---- the loops: for fid, locations := range M(parents, filter) { for _, locs := range locations.G() { ... } }
-	var outerRS, groupRS *ast.RangeStmt
-	var mcFn, gbFn *types.Func
-	var locations, locsObj types.Object
-	inspectNoLit(body, func(n ast.Node) bool {
-		rs, ok := n.(*ast.RangeStmt)
-		if !ok {
-			return true
-		}
-		call, ok := ast.Unparen(rs.X).(*ast.CallExpr)
-		if !ok {
-			return true
-		}
-		fn := callee(info, call)
-		if fn == nil || fn.Pkg() == nil || fn.Pkg().Path() != c11CorePath {
-			return true
-		}
-		if _, isMap := info.TypeOf(rs.X).Underlying().(*types.Map); isMap && rs.Key != nil && rs.Value != nil && objOf(info, rs.Key) == cx.fid && len(call.Args) >= 1 && objOf(info, call.Args[0]) == cx.parents {
-			outerRS, mcFn, locations = rs, fn, objOf(info, rs.Value)
-			// the filter handed over is the option
-			okFilter := false
-			for _, a := range call.Args[1:] {
-				if c11DirectField(info, a, cx.opts) == "ChildFilter" {
-					okFilter = true
-				}
-			}
-			if !okFilter {
-				r.Bad("filter@Compute", call.Pos(), "`%s` does not pass opts.ChildFilter: the ChildFilter option has no effect", src(r.P.Fset, call))
-			}
-		}
-		if sel, ok := ast.Unparen(call.Fun).(*ast.SelectorExpr); ok && locations != nil && objOf(info, sel.X) == locations && rs.Value != nil && len(call.Args) == 0 {
-			groupRS, gbFn, locsObj = rs, fn, objOf(info, rs.Value)
-		}
-		return true
-	})
-	if outerRS == nil || groupRS == nil || locsObj == nil {
-		r.Anchor("`for fid, locations := range <locmap>(parents, opts.ChildFilter) { for _, locs := range locations.<group>() {...} }` in core.Compute")
-		return
-	}
-	locs := c11A5MapLocs(r, cx.pk, mcFn)
-	if locs == nil {
-		return
-	}
-	c11A5Group(r, cx.pk, gbFn, locs)
-	inGroupBody := func(o types.Object) bool {
-		return o != nil && groupRS.Body.Pos() <= o.Pos() && o.Pos() <= groupRS.Body.End()
-	}
-
-	// ---- the parent the group belongs to
-	var parentObj, idxObj types.Object
-	for p, i := range pvars {
-		if inGroupBody(p) && inGroupBody(i) {
-			// I := locs[0].<parentField> ?
-			parentObj, idxObj = p, i
-		}
-	}
-	c := "group@Compute parent-index"
-	if parentObj == nil {
-		r.Unknown(c, groupRS.Pos(), "no `I := locs[0].%s; P := parents[I]` in the per-parent loop", locs.parentField.Name())
-		return
-	}
-	var idxDef *ast.AssignStmt
-	inspectNoLit(groupRS.Body, func(n ast.Node) bool {
-		if as, ok := n.(*ast.AssignStmt); ok && len(as.Lhs) == 1 && len(as.Rhs) == 1 && objOf(info, as.Lhs[0]) == idxObj {
-			idxDef = as
-		}
-		return true
-	})
-	switch {
-	case idxDef == nil || cx.fl.nAssign(idxObj) != 1 || cx.fl.nAssign(parentObj) != 1:
-		r.Unknown(c, groupRS.Pos(), "%s / %s are not single assignments", idxObj.Name(), parentObj.Name())
-	default:
-		ix := c11FieldOfIndexed(info, idxDef.Rhs[0], locsObj, locs.parentField)
-		if ix == nil || !c11IsConstInt(info, ix, 0) {
-			r.Bad(c, idxDef.Pos(), "`%s`: the index into parents/results must be %s[0].%s, the parent index the location map recorded for this group (the other field is the position of the child inside the parent)", src(r.P.Fset, idxDef), locsObj.Name(), locs.parentField.Name())
-		} else {
-			r.OK(c, idxDef.Pos(), "%s := %s[0].%s; %s := parents[%s] (all locations of a group share that parent index)", idxObj.Name(), locsObj.Name(), locs.parentField.Name(), parentObj.Name(), idxObj.Name())
-		}
-	}
-
-	// ---- current child and SetChild
-	c = "current@Compute"
-	{
-		var bad []string
-		fa := cx.findCall.Args
-		if len(fa) != 3 {
-			bad = append(bad, "FindVisible is not called with (changeset, time, threshold)")
-		} else {
-			if c11MethodCallOn(info, fa[0], c11CorePath+".Parent", "ChangesetID", parentObj) == nil {
-				bad = append(bad, "first argument `"+src(r.P.Fset, fa[0])+"` is not "+parentObj.Name()+".ChangesetID()")
-			}
-			if !usesObj(info, fa[1], parentObj) {
-				bad = append(bad, "the time argument `"+src(r.P.Fset, fa[1])+"` does not derive from "+parentObj.Name())
-			}
-			if c11DirectField(info, fa[2], cx.opts) != "Threshold" {
-				bad = append(bad, "the threshold argument `"+src(r.P.Fset, fa[2])+"` is not opts.Threshold (the Threshold option would have no effect on which child version is taken as current)")
-			}
-		}
-		if cx.fl.nAssign(cx.cur) != 1 {
-			bad = append(bad, cx.cur.Name()+" is assigned more than once")
-		}
-		nSet := 0
-		inspectNoLit(groupRS.Body, func(n ast.Node) bool {
-			call, ok := n.(*ast.CallExpr)
-			if !ok || !isMethod(callee(info, call), c11CorePath+".Parent", "SetChild") || len(call.Args) != 2 {
-				return true
-			}
-			nSet++
-			sel, _ := ast.Unparen(call.Fun).(*ast.SelectorExpr)
-			if sel == nil || objOf(info, sel.X) != parentObj {
-				bad = append(bad, "`"+src(r.P.Fset, call)+"` is not called on "+parentObj.Name())
-			}
-			if objOf(info, call.Args[1]) != cx.cur {
-				bad = append(bad, "`"+src(r.P.Fset, call)+"` does not pass "+cx.cur.Name()+", the child version FindVisible returned for this parent")
-			}
-			// arg0: cl.<indexField>, cl ranging over locs
-			okIdx := false
-			if f := fieldOf(info, call.Args[0]); f != nil && f == locs.indexField {
-				cl := objOf(info, ast.Unparen(call.Args[0]).(*ast.SelectorExpr).X)
-				for p := cx.par[ast.Node(call)]; p != nil && cl != nil; p = cx.par[p] {
-					if rs, ok := p.(*ast.RangeStmt); ok && rs.Value != nil && objOf(info, rs.Value) == cl && objOf(info, rs.X) == locsObj {
-						okIdx = true
-					}
-				}
-			}
-			if !okIdx {
-				bad = append(bad, "`"+src(r.P.Fset, call)+"`: the position must be <cl>."+locs.indexField.Name()+" for cl ranging over "+locsObj.Name())
-			}
-			return true
-		})
-		if nSet == 0 {
-			bad = append(bad, "SetChild is never called in the per-parent loop")
-		}
-		if len(bad) > 0 {
-			r.Bad(c, cx.findCall.Pos(), "%s", strings.Join(bad, "; "))
-		} else {
-			r.OK(c, cx.findCall.Pos(), "%s := %s.FindVisible(%s.ChangesetID(), <time of %s>, opts.Threshold) is what %s.SetChild(cl.%s, %s) stores at every location of the group", cx.cur.Name(), cx.child.Name(), parentObj.Name(), parentObj.Name(), parentObj.Name(), locs.indexField.Name(), cx.cur.Name())
-		}
-	}
-
-	// ---- the window loop
-	var updCall *ast.CallExpr
-	var kObj types.Object
-	inspectNoLit(groupRS.Body, func(n ast.Node) bool {
-		call, ok := n.(*ast.CallExpr)
-		if !ok || !isMethod(callee(info, call), c11SharedPath+".Child", "Update") {
-			return true
-		}
-		if sel, ok := ast.Unparen(call.Fun).(*ast.SelectorExpr); ok {
-			if ix, ok := ast.Unparen(sel.X).(*ast.IndexExpr); ok && objOf(info, ix.X) == cx.child {
-				updCall, kObj = call, objOf(info, ix.Index)
-			}
-		}
-		return true
-	})
-	if updCall == nil || kObj == nil {
-		r.Anchor("`<child>[k].Update()` on the fetched child list in core.Compute")
-		return
-	}
-	var win *ast.ForStmt
-	for p := cx.par[ast.Node(updCall)]; p != nil; p = cx.par[p] {
-		if fs, ok := p.(*ast.ForStmt); ok && fs.Init != nil && usesObj(info, fs.Init, kObj) {
-			win = fs
-			break
-		}
-	}
-	c = "window@Compute loop"
-	if win == nil {
-		r.Unknown(c, updCall.Pos(), "the loop defining %s was not found; accepted idiom: `for k := start; k < nextVersion; k++`", kObj.Name())
-		return
-	}
-	var startObj, endObj types.Object
-	{
-		var bad []string
-		if as, ok := win.Init.(*ast.AssignStmt); ok && len(as.Lhs) == 1 && len(as.Rhs) == 1 && objOf(info, as.Lhs[0]) == kObj {
-			startObj = objOf(info, as.Rhs[0])
-		}
-		if startObj == nil {
-			bad = append(bad, "init `"+src(r.P.Fset, win.Init)+"` is not `"+kObj.Name()+" := <start variable>`")
-		}
-		if be, ok := ast.Unparen(win.Cond).(*ast.BinaryExpr); ok {
-			x, y, op := be.X, be.Y, be.Op
-			if op == token.GTR || op == token.GEQ {
-				x, y = y, x
-				op = map[token.Token]token.Token{token.GTR: token.LSS, token.GEQ: token.LEQ}[op]
-			}
-			if objOf(info, x) == kObj && objOf(info, y) != nil {
-				endObj = objOf(info, y)
-				if op != token.LSS {
-					bad = append(bad, "condition `"+src(r.P.Fset, win.Cond)+"` is not the strict `"+kObj.Name()+" < <end>`: the child version that belongs to the next parent version would also be emitted as an update of this one")
-				}
-			}
-		}
-		if endObj == nil && len(bad) == 0 {
-			bad = append(bad, "condition `"+src(r.P.Fset, win.Cond)+"` is not `"+kObj.Name()+" < <end variable>`")
-		}
-		if inc, ok := win.Post.(*ast.IncDecStmt); !ok || inc.Tok != token.INC || objOf(info, inc.X) != kObj {
-			bad = append(bad, "post statement is not `"+kObj.Name()+"++`")
-		}
-		if cx.fl.nAssign(kObj) != 2 {
-			bad = append(bad, kObj.Name()+" is modified inside the loop")
-		}
-		if len(bad) > 0 {
-			r.Bad(c, win.Pos(), "%s", strings.Join(bad, "; "))
-		} else {
-			r.OK(c, win.Pos(), "for %s := %s; %s < %s; %s++ over %s[%s] (every child version after the current one and before the next parent's, once)", kObj.Name(), startObj.Name(), kObj.Name(), endObj.Name(), kObj.Name(), cx.child.Name(), kObj.Name())
-		}
-	}
-
-	// ---- start
-	if startObj != nil {
-		winInit, _ := blockOf(cx.fl.g, win.Init.Pos())
-		nStart := 0
-		sawCur := false
-		inspectNoLit(body, func(n ast.Node) bool {
-			var rhs ast.Expr
-			var pos token.Pos
-			var stmt ast.Node
-			isDef := false
-			switch s := n.(type) {
-			case *ast.AssignStmt:
-				for i, l := range s.Lhs {
-					if objOf(info, l) == startObj && i < len(s.Rhs) {
-						rhs, pos, stmt, isDef = s.Rhs[i], s.Pos(), s, s.Tok == token.DEFINE
-					}
-				}
-			case *ast.DeclStmt:
-				if gd, ok := s.Decl.(*ast.GenDecl); ok {
-					for _, sp := range gd.Specs {
-						if vs, ok := sp.(*ast.ValueSpec); ok {
-							for i, nm := range vs.Names {
-								if info.Defs[nm] == startObj {
-									pos, stmt, isDef = vs.Pos(), s, true
-									if i < len(vs.Values) {
-										rhs = vs.Values[i]
-									}
-								}
-							}
-						}
-					}
-				}
-			}
-			if stmt == nil {
-				return true
-			}
-			nStart++
-			text := "zero value"
-			if rhs != nil {
-				text = src(r.P.Fset, rhs)
-			}
-			cc := "window@Compute start " + text
-			facts := cx.fl.facts(pos)
-			curNil := c11NilFact(info, facts, c11IsObj(info, cx.cur))
-			// the assignment must be settled before the loop starts: the if statement it sits in is complete
-			settled := isDef
-			if !isDef {
-				// outermost if statement (inside the per-parent loop) the assignment sits in
-				var top *ast.IfStmt
-				for p := cx.par[stmt]; p != nil && p != ast.Node(groupRS.Body); p = cx.par[p] {
-					if ifs, ok := p.(*ast.IfStmt); ok {
-						top = ifs
-					}
-				}
-				if top == nil {
-					sb2, _ := blockOf(cx.fl.g, pos)
-					settled = sb2 != nil && winInit != nil && (sb2 == winInit || cx.fl.dom[winInit][sb2])
-				} else {
-					for _, b := range cx.fl.g.Blocks {
-						if b.Kind == cfg.KindIfDone && b.Stmt == top && winInit != nil && (b == winInit || cx.fl.dom[winInit][b]) {
-							settled = true
-						}
-					}
-				}
-			}
-			switch {
-			case rhs == nil || c11IsConstInt(info, rhs, 0):
-				if isDef || curNil == +1 {
-					r.OKTrivial(cc, pos, "window starts at the first known version only as the initial value or when no current child exists (%s == nil)", cx.cur.Name())
-				} else {
-					r.Bad(cc, pos, "`%s` can execute although a current child version exists: versions at or before the current one would be emitted as updates", src(r.P.Fset, stmt))
-				}
-			default:
-				v := c11FieldPlusOne(info, rhs, "VersionIndex")
-				switch {
-				case v == nil:
-					if f := fieldOf(info, rhs); f != nil && f.Name() == "VersionIndex" {
-						r.Bad(cc, pos, "`%s`: the window must start at VersionIndex + 1; starting at the version itself emits the version already annotated on the parent again as an update (and, before an absent child, the version that precedes the parent)", src(r.P.Fset, stmt))
-					} else {
-						r.Unknown(cc, pos, "`%s`: accepted start values are 0, <current>.VersionIndex + 1, <VersionBefore(...)>.VersionIndex + 1", src(r.P.Fset, stmt))
-					}
-				case !settled:
-					r.Bad(cc, pos, "`%s` is not settled before the window loop starts", src(r.P.Fset, stmt))
-				case v == cx.cur:
-					sawCur = true
-					if curNil == -1 {
-						r.OK(cc, pos, "when %s != nil the window starts right after the current version (ChildList index == VersionIndex by A4)", cx.cur.Name())
-					} else {
-						r.Bad(cc, pos, "`%s` is reachable with %s == nil", src(r.P.Fset, stmt), cx.cur.Name())
-					}
-				default:
-					// v := child.VersionBefore(<time of parent>)
-					okDef := false
-					inspectNoLit(groupRS.Body, func(m ast.Node) bool {
-						if as, ok := m.(*ast.AssignStmt); ok && len(as.Lhs) == 1 && len(as.Rhs) == 1 && objOf(info, as.Lhs[0]) == v {
-							if call := c11MethodCallOn(info, as.Rhs[0], c11CorePath+".ChildList", "VersionBefore", cx.child); call != nil && len(call.Args) == 1 && usesObj(info, call.Args[0], parentObj) {
-								okDef = true
-							}
-						}
-						return true
-					})
-					switch {
-					case !okDef || cx.fl.nAssign(v) != 1:
-						r.Unknown(cc, pos, "%s is not `%s.VersionBefore(<time of %s>)`", v.Name(), cx.child.Name(), parentObj.Name())
-					case curNil != +1 || c11NilFact(info, facts, c11IsObj(info, v)) != -1:
-						r.Bad(cc, pos, "`%s` must be reachable only when %s == nil and %s != nil", src(r.P.Fset, stmt), cx.cur.Name(), v.Name())
-					default:
-						r.OK(cc, pos, "when no current child exists the window starts right after the last version before the parent (%s := %s.VersionBefore(...), non-nil)", v.Name(), cx.child.Name())
-					}
-				}
-			}
-			return true
-		})
-		if !sawCur {
-			r.Bad("window@Compute start", win.Pos(), "no assignment `%s = %s.VersionIndex + 1`: the window does not start after the current child version", startObj.Name(), cx.cur.Name())
-		}
-		_ = nStart
-	}
-
-	// ---- end
-	if endObj != nil {
-		c = "window@Compute end"
-		var bad []string
-		var def *ast.CallExpr
-		inspectNoLit(groupRS.Body, func(n ast.Node) bool {
-			if as, ok := n.(*ast.AssignStmt); ok && len(as.Lhs) == 1 && len(as.Rhs) == 1 && objOf(info, as.Lhs[0]) == endObj {
-				def, _ = ast.Unparen(as.Rhs[0]).(*ast.CallExpr)
-			}
-			return true
-		})
-		var npObj types.Object
-		if def == nil || cx.fl.nAssign(endObj) != 1 {
-			bad = append(bad, endObj.Name()+" is not a single call result computed per parent")
-		} else {
-			hasCur, hasChild := false, false
-			for _, a := range def.Args {
-				o := objOf(info, a)
-				switch {
-				case o == cx.cur:
-					hasCur = true
-				case o == cx.child:
-					hasChild = true
-				case o != nil && namedPath(o.Type()) == c11CorePath+".Parent" && o != parentObj:
-					npObj = o
-				case o == parentObj:
-					bad = append(bad, "`"+src(r.P.Fset, def)+"` receives "+parentObj.Name()+" itself as the next parent")
-				}
-			}
-			if !hasCur || !hasChild || npObj == nil {
-				bad = append(bad, "`"+src(r.P.Fset, def)+"` does not receive the current child, the child list and the next parent version")
-			}
-		}
-		if npObj != nil {
-			if !inGroupBody(npObj) {
-				bad = append(bad, npObj.Name()+" is declared outside the per-parent loop: a stale next parent of another group could be used")
-			}
-			nAsg := 0
-			inspectNoLit(groupRS.Body, func(n ast.Node) bool {
-				as, ok := n.(*ast.AssignStmt)
-				if !ok || len(as.Lhs) != 1 || len(as.Rhs) != 1 || objOf(info, as.Lhs[0]) != npObj {
-					return true
-				}
-				nAsg++
-				ix, ok := ast.Unparen(as.Rhs[0]).(*ast.IndexExpr)
-				okNext := false
-				if ok && objOf(info, ix.X) == cx.parents {
-					if be, ok := ast.Unparen(ix.Index).(*ast.BinaryExpr); ok && be.Op == token.ADD && objOf(info, be.X) == idxObj && c11IsConstInt(info, be.Y, 1) {
-						okNext = true
-					}
-				}
-				if !okNext {
-					bad = append(bad, "`"+src(r.P.Fset, as)+"`: the next parent version must be parents["+idxObj.Name()+"+1]; otherwise the update window does not end at the following version of the parent")
-					return true
-				}
-				// guarded by I < len(parents)-1  or  I+1 < len(parents)
-				guard := false
-				for _, a := range cx.fl.facts(as.Pos()) {
-					be, ok := ast.Unparen(a.e).(*ast.BinaryExpr)
-					if !ok || !a.val || be.Op != token.LSS {
-						continue
-					}
-					if objOf(info, be.X) == idxObj {
-						if sb, ok := ast.Unparen(be.Y).(*ast.BinaryExpr); ok && sb.Op == token.SUB && c11IsConstInt(info, sb.Y, 1) {
-							if la := lenCallArg(info, sb.X); la != nil && objOf(info, la) == cx.parents {
-								guard = true
-							}
-						}
-					}
-					if ab, ok := ast.Unparen(be.X).(*ast.BinaryExpr); ok && ab.Op == token.ADD && objOf(info, ab.X) == idxObj && c11IsConstInt(info, ab.Y, 1) {
-						if la := lenCallArg(info, be.Y); la != nil && objOf(info, la) == cx.parents {
-							guard = true
-						}
-					}
-				}
-				if !guard {
-					bad = append(bad, "`"+src(r.P.Fset, as)+"` is not guarded by `"+idxObj.Name()+" < len(parents)-1`")
-				}
-				return true
-			})
-			if nAsg != 1 {
-				bad = append(bad, npObj.Name()+" is assigned "+string(rune('0'+nAsg))+" times (expected: nil by declaration, parents["+idxObj.Name()+"+1] when it exists)")
-			}
-		}
-		if len(bad) > 0 {
-			r.Bad(c, win.Pos(), "%s", strings.Join(bad, "; "))
-		} else {
-			r.OK(c, def.Pos(), "%s := %s(%s, %s, %s, …) with %s = parents[%s+1] when it exists, nil (declared per parent) otherwise; the arithmetic inside is NOT decided", endObj.Name(), src(r.P.Fset, def.Fun), cx.cur.Name(), cx.child.Name(), npObj.Name(), npObj.Name(), idxObj.Name())
-		}
-	}
-
-	// ---- visible versions only; update index; per-parent list; results
-	c = "window@Compute visible-only"
-	isVis := func(e ast.Expr) bool {
-		f := fieldOf(info, e)
-		if f == nil || f.Name() != "Visible" {
-			return false
-		}
-		ix, ok := ast.Unparen(ast.Unparen(e).(*ast.SelectorExpr).X).(*ast.IndexExpr)
-		return ok && objOf(info, ix.X) == cx.child && objOf(info, ix.Index) == kObj
-	}
-	if c11BoolFact(cx.fl.facts(updCall.Pos()), isVis) == +1 {
-		r.OK(c, updCall.Pos(), "`%s` is reachable only when %s[%s].Visible", src(r.P.Fset, updCall), cx.child.Name(), kObj.Name())
-	} else {
-		r.Bad(c, updCall.Pos(), "`%s` is reachable for a child version that is not visible: a deleted child version would be applied to the parent as if it had a location", src(r.P.Fset, updCall))
-	}
-
-	var uObj, listObj types.Object
-	var uDef, uApp *ast.AssignStmt
-	if as, ok := cx.par[ast.Node(updCall)].(*ast.AssignStmt); ok && len(as.Lhs) == 1 {
-		uObj, uDef = objOf(info, as.Lhs[0]), as
-	}
-	c = "window@Compute update-index"
-	var clRange *ast.RangeStmt
-	for p := cx.par[ast.Node(updCall)]; p != nil && p != ast.Node(win); p = cx.par[p] {
-		if rs, ok := p.(*ast.RangeStmt); ok && objOf(info, rs.X) == locsObj && rs.Value != nil {
-			clRange = rs
-		}
-	}
-	if uObj == nil || clRange == nil {
-		r.Unknown(c, updCall.Pos(), "accepted idiom: `for _, cl := range %s { u := %s[%s].Update(); u.Index = cl.%s; updates = append(updates, u) }`", locsObj.Name(), cx.child.Name(), kObj.Name(), locs.indexField.Name())
-	} else {
-		cl := objOf(info, clRange.Value)
-		okIdx := false
-		ast.Inspect(clRange.Body, func(n ast.Node) bool {
-			as, ok := n.(*ast.AssignStmt)
-			if !ok || len(as.Lhs) != 1 || len(as.Rhs) != 1 {
-				return true
-			}
-			if c11DirectField(info, as.Lhs[0], uObj) == "Index" {
-				okIdx = false
-				if f := fieldOf(info, as.Rhs[0]); f == locs.indexField && c11DirectField(info, as.Rhs[0], cl) != "" && c11IsTopLevel(clRange.Body, as) {
-					okIdx = true
-				}
-			}
-			if call := c11AppendTo(info, as); call != nil && len(call.Args) == 2 && objOf(info, call.Args[1]) == uObj {
-				uApp, listObj = as, objOf(info, as.Lhs[0])
-			}
-			return true
-		})
-		switch {
-		case !okIdx:
-			r.Bad(c, uDef.Pos(), "the update's Index is not set (unconditionally) from %s.%s: ApplyUpdatesUpTo would change another child than the one whose history produced the update", cl.Name(), locs.indexField.Name())
-		case uApp == nil || !c11IsTopLevel(clRange.Body, uApp) || cx.fl.nAssign(uObj) != 2:
-			r.Bad(c, uDef.Pos(), "the update built for location %s is not appended exactly as built (`L = append(L, %s)`)", cl.Name(), uObj.Name())
-		default:
-			r.OK(c, uDef.Pos(), "for every location %s of the group: %s := %s[%s].Update(); %s.Index = %s.%s; %s = append(%s, %s)", cl.Name(), uObj.Name(), cx.child.Name(), kObj.Name(), uObj.Name(), cl.Name(), locs.indexField.Name(), listObj.Name(), listObj.Name(), uObj.Name())
-		}
-	}
-
-	c = "group@Compute results"
-	{
-		var bad []string
-		var resObj types.Object
-		var resApp *ast.AssignStmt
-		inspectNoLit(groupRS.Body, func(n ast.Node) bool {
-			as, ok := n.(*ast.AssignStmt)
-			if !ok {
-				return true
-			}
-			call := c11AppendTo(info, as)
-			if call == nil {
-				return true
-			}
-			ix, ok := ast.Unparen(as.Lhs[0]).(*ast.IndexExpr)
-			if !ok || namedPath(info.TypeOf(as.Lhs[0])) != core.ModulePath+".Updates" {
-				return true
-			}
-			resApp, resObj = as, objOf(info, ix.X)
-			if objOf(info, ix.Index) != idxObj {
-				bad = append(bad, "`"+src(r.P.Fset, as)+"` is not indexed by "+idxObj.Name())
-			}
-			if len(call.Args) != 2 || !call.Ellipsis.IsValid() || listObj == nil || objOf(info, call.Args[1]) != listObj {
-				bad = append(bad, "`"+src(r.P.Fset, as)+"` does not append exactly the per-parent update list")
-			}
-			return true
-		})
-		if resApp == nil {
-			bad = append(bad, "no `results["+idxObj.Name()+"] = append(results["+idxObj.Name()+"], <updates>...)` in the per-parent loop")
-		} else {
-			if listObj != nil && !inGroupBody(listObj) {
-				bad = append(bad, listObj.Name()+" is declared outside the per-parent loop: updates of one parent version would leak into the next")
-			}
-			if listObj != nil && cx.fl.nAssign(listObj) != 2 {
-				bad = append(bad, listObj.Name()+" is modified elsewhere")
-			}
-			// after the window loop, unconditionally within the group body
-			tb, _ := blockOf(cx.fl.g, resApp.Pos())
-			okAfter := false
-			for _, b := range cx.fl.g.Blocks {
-				if b.Kind == cfg.KindForDone && b.Stmt == win && tb != nil && (b == tb || cx.fl.dom[tb][b]) {
-					okAfter = true
-				}
-			}
-			if !okAfter || !c11IsTopLevel(groupRS.Body, resApp) {
-				bad = append(bad, "`"+src(r.P.Fset, resApp)+"` does not follow the completed window loop unconditionally")
-			}
-			// results := make([]osm.Updates, len(parents)), returned on success
-			okMake, okRet := false, false
-			inspectNoLit(body, func(n ast.Node) bool {
-				switch s := n.(type) {
-				case *ast.AssignStmt:
-					if len(s.Lhs) == 1 && len(s.Rhs) == 1 && objOf(info, s.Lhs[0]) == resObj {
-						if call, ok := ast.Unparen(s.Rhs[0]).(*ast.CallExpr); ok && builtinName(info, call) == "make" && len(call.Args) == 2 {
-							if la := lenCallArg(info, call.Args[1]); la != nil && objOf(info, la) == cx.parents {
-								okMake = true
-							}
-						}
-					}
-				case *ast.ReturnStmt:
-					if len(s.Results) == 2 && objOf(info, s.Results[0]) == resObj && c11IsNilIdent(info, s.Results[1]) {
-						okRet = true
-					}
-				}
-				return true
-			})
-			if !okMake {
-				bad = append(bad, resObj.Name()+" is not make([]osm.Updates, len(parents))")
-			}
-			if !okRet {
-				bad = append(bad, resObj.Name()+" is not what the success path returns")
-			}
-		}
-		if len(bad) > 0 {
-			r.Bad(c, groupRS.Pos(), "%s: the updates would not end up on the parent version whose locations produced them", strings.Join(bad, "; "))
-		} else {
-			r.OK(c, resApp.Pos(), "%s (fresh per parent) is appended to %s[%s] after the window loop; %s = make(…, len(parents)) is returned: result i belongs to parents[i]", listObj.Name(), resObj.Name(), idxObj.Name(), resObj.Name())
-		}
-	}
 }
